@@ -12,1124 +12,1229 @@ Definition show_fres (r : fres) : string :=
   end.
 Definition check (rs : list rune) : string := digest (show_fres (format_res rs)).
 Definition full (rs : list rune) : string := show_fres (format_res rs).
-Eval vm_compute in ("<<<M3666>>>" ++ check (runes_of_ascii "options { 	 // c1a
-	// c1b
-    StringPrefixLenType  // c2
-    =
+Eval vm_compute in ("<<<M1076>>>" ++ check (runes_of_ascii "  packet a1 {} options{len= ""a\""b"" ;
+} options
+{Header =
+    '\x00' // " ++ [128512]%N ++ runes_of_ascii " emoji
+; BodyLength=
+uint8 ; } packet Foo {
+    @lengthOf(
+// " ++ [27880; 37322]%N ++ runes_of_ascii "
+// trailing space 
+a1) packetx{ a1 @calculatedFrom(
+""\n"" ) , asx{	repeat char[ 3
+]
+roots`` , repeat string_	{
+string a1 @calculatedFrom(""// no comment"" ) `// not a comment`, uint8 charz, string_ ,}	, string	_x `line1
+line2` ,
+    repeat char[] float `{ , }`  ,
+    }
+    , MetaDataX , },Packet
+, char[
+    0123456789] string_
+    `say ""hi""` , @lengthOf( stringy
+    ) @tag( 65535 ) @leftPad // a // b
+( '0'
+) match
+    chars as
+u8x { // packet A { u8 x, }
+0123456789 :Packet,
+0 : u , [ """ ++ [128512]%N ++ runes_of_ascii """	]
+: matchKey
+    // @lengthOf(
+    , 0123456789 : // trailing space 
+len , //	t
+""a\\""
+    : As,0123456789  :
+x_y_z , },match
+    // packet A { u8 x, }
+    msg_type
+    as metadata {	0123456789
+    :
+chars //
+, // " ++ [27880; 37322]%N ++ runes_of_ascii "
+65535  :	calculatedFrom
+,// a // b
+""packet"" : charz ,// trailing space 
+}
+, @tag( 10) repeat i8i8 falsey	`{ , }` ,
+@tag(
+    3) match repeatCount as zchar{ 10 : calculatedFrom // c
+} , match//x
+Logon as
+/// triple
+// trailing space 
+falsey
+    { ""a\""b"" : packetx,  } ,@lengthOf(
+zchar )repeat zchar[ 00 // `tick` ""quote"" 'q'
+]body	,
+    repeat char[ 00
+//
+// trailing space 
+]
+len
+    , } packet
+    uint8x
+{ @lengthOf( float ) @calculatedFrom( ""\n""
+)
+match zchar as BodyLength
+    { 10 :Pad
+    //x
+    ,} ,
+    @lengthOf( charz)	f32 stringy
+`line1
+line2` , crc { u64 BodyLength@lengthOf( calculatedFrom )
+,char[ // @lengthOf(
+00 ] msg_type
+    /// triple
+    @lengthOf( Logon ) , /// triple
+} ,
+    i16 MetaDataX`
+`
+,
+@calculatedFrom( ""x y"" ) match roots as leftPad
+{ ""\n"" : rootA , [ ""x y""
+, 0123456789 , 0
+,65535,
+    ""x y""  ,
+    ""abc"" ]:pack  ,  0 : float ,
+    } , @lengthOf(lengthOf
+) @lengthOf( f32a
+) i32
+// packet A { u8 x, }
+// trailing space 
+matchKey @lengthOf(len
+)
+, u8 Z9_ // " ++ [128512]%N ++ runes_of_ascii " emoji
+@calculatedFrom( ""packet""
+    )`it's` ,
+@lengthOf( float
+) repeat i8i8 `crlf
+line` , @tag( 0123456789 ) repeat
+i8
+    matchKey `two words`, @leftPad
+(
+' '// a // b
+) string metadata @calculatedFrom(  ""it's"" ) , }
 
-// c3
+")).
+Eval vm_compute in ("<<<M1094>>>" ++ check (runes_of_ascii "packet/// triple
+u128 {@calculatedFrom(
+""" ++ [128512]%N ++ runes_of_ascii """ )
+/// triple
+// c
+i64 charz `tab	here` ,
+    @lengthOf(
+Header ) float32 a1@calculatedFrom(""" ++ [128512]%N ++ runes_of_ascii """) , repeat string a1
+`it's`
+    , @tag( 42
+) @tag(
+7 )zchar stringy ,
+float32	calculatedFrom `
+`,} MetaData x{ // " ++ [27880; 37322]%N ++ runes_of_ascii "
+Header x_y_z`
+` ,int64
+options1
+`it's`, char[]
+chars, u16 options1
+,u16 calculatedFrom `tab	here` // `tick` ""quote"" 'q'
+, char[	0123456789 ] u , } root packet uint8x { @rightPad (	'\x00')
+    char[	7]asx , int64
+Pad @lengthOf(
+As)`crlf
+line`, msg_type  @calculatedFrom(
+    ""`tick`"" ) ,
+@calculatedFrom(// a // b
+""a\\"" ) @rightPad ( ' '
+    )repeatCount	`line1
+line2`
+, @tag(3 ) int32 As `two words`
+,@tag( 1) @calculatedFrom( ""`tick`""  ) @lengthOf( f32a )match zchar
+as u {0123456789: leftPad	""\" ++ [233]%N ++ runes_of_ascii """:  _x  , 7 : MetaDataX
+, [ 4294967296 ]
+:	stringy, 7:uint8x } ,@leftPad (
+    ) string Foo
+@lengthOf(MetaDataX ) ``, //
+match calculatedFrom as A
+{ [ 255
+, 7 ,
+1
+, //x
+1
+    , 42,007 ,
+007
+    ]: A , [// `tick` ""quote"" 'q'
+""a\\"",	""it's"",""1""
+,	00 ,
+    """ ++ [128512]%N ++ runes_of_ascii """,
+""{,}"" ,
+42]
+:
+    calculatedFrom	, ""it's""	:
+    f32a ,
+},
+repeat char[]
+i8i8,  leftPad
+    ,
+} packet _x { char[] Z9_  ,
+int64 options1
+    @calculatedFrom( """"// trailing space 
+)`u8 x,`
+,
+    // `tick` ""quote"" 'q'
+    @calculatedFrom( ""// no comment"" ) match tag
+    as roots { [ // packet A { u8 x, }
+""abc"" ] : options1	65535: o,	""// no comment"" : f32a// c
+,""packet""
+:uint8x ,  } ,  leftPad@calculatedFrom(""" ++ [233]%N ++ runes_of_ascii "t" ++ [233]%N ++ runes_of_ascii """ ) ,
+    repeat x
+    ,zchar[ 65535
+] float `line1
+line2` , i16 uint8x,	zchar[ 10
+] uint8x // packet A { u8 x, }
+,
+@calculatedFrom(""abc"") repeat	x
+{ trueish
+    `tab	here`
+,
+}	, @tag( 1
+) char[ 3 ]
+// packet A { u8 x, }
+// a // b
+metadata`say ""hi""` , }
+")).
+Eval vm_compute in ("<<<M4039>>>" ++ check (runes_of_ascii "
+packet
+options1
+{ /// triple
+      string
+falsey`doc`
 
-u16// c4a
+    ,  float//
+      BodyLength
+,
+@tag( 65535
+    )
+	Logon
 
-  // c4b
-		; 	 // c5a
-// c5b
-		ArrayPrefixLenType	// c6
-=	u32// c8
+@calculatedFrom( ""a	b"" )	,
+repeat matchKey
+	_x
+`u8 x,` ,  // `tick` ""quote"" 'q'
+
+	repeat  tag {
+repeat u8 trueish `a\`
+    ,char[]
+        // a // b
+    u8x @calculatedFrom(""it's""
+
+    )
+,
+
+    },match	i64_ as
+
+BodyLength 	 //x
+	  {
+
+""" ++ [28040; 24687]%N ++ runes_of_ascii """
+	:
+
+T 
+, 
+[
+""packet"" ]  // " ++ [128512]%N ++ runes_of_ascii " emoji
+	:
+
+    x_y_z , 
+""a\""b""
+:
+A 
+,
+
+65535
+:
+	asx[  //	t
+
+""\n""
+	,	0123456789 , 
+0
+,
+
+    0123456789 ] : charz	//
+    [  ""{,}""
+
+    ,
+""a\\""
+	, // @lengthOf(
+      255  ,
+    10
+, 1
+,
+""\" ++ [233]%N ++ runes_of_ascii """
+,
+
+    10 ]
+
+    :  metadata  ,
+    } ,	repeat string 
+x_y_z,
+
+    //
+	/// triple
+    match i8i8
+as
+
+    len 
+// @lengthOf(
+  {
+	""\n""  : 
+u8x 
+, 0123456789 :
+
+int
+
+, 10// " ++ [128512]%N ++ runes_of_ascii " emoji
+	:roots
+	, }
+
+    ,	rootA
+	, 
+@tag( // " ++ [27880; 37322]%N ++ runes_of_ascii "
+	3)
+
+rootA  @lengthOf(f32a) 	 // c
+
+, 
+// trailing space 
+
+  }
+
+packet 
+options1{
+    @calculatedFrom(""" ++ [128512]%N ++ runes_of_ascii """
+	)
+
+    i8i8  //
+      @lengthOf(	Logon)
+,
+	    // @lengthOf(
+// `tick` ""quote"" 'q'
+    float32 chars
+
+    `tab	here`
+
+    ,  @leftPad  (  '0'  )
+	@tag( 3 )  @calculatedFrom(
+""""// trailing space 
+    )	matchKey  @calculatedFrom(  // packet A { u8 x, }
+	""" ++ [233]%N ++ runes_of_ascii "t" ++ [233]%N ++ runes_of_ascii """
+
+    ) , repeat
+    uint16
+u``
+,
+@rightPad 
+(/// triple
+
+)	rootA ,@leftPad
+
+    (
+    // a // b
+  '0'
+) // @lengthOf(
+
+  _x 
+  // trailing space 
+
+//	t
+Z9_
+, char[ 0123456789
+]	packetx
+
+`crlf
+line` 
+, }
+")).
+Eval vm_compute in ("<<<M4007>>>" ++ check (runes_of_ascii "
+root
+    packet
+msg_type
+	{ 
+u128//
+, @calculatedFrom( """ ++ [233]%N ++ runes_of_ascii "t" ++ [233]%N ++ runes_of_ascii """ )
+repeat
+char[ 
+
+    //
+		3	]
+
+    metadata  `crlf
+line`
+,
+char[255 ]
+
+    Pad,asx @calculatedFrom( ""packet"" )
+
+,repeat
+    stringy
+
+    `tab	here`,
+	//x
+  //	t
+
+repeat //x
+As
+    `two words` ,@leftPad(
+
+    '\x00'
+) repeat matchKey
+`a\`
+,
+
+@rightPad (' '	) 
+repeat  /// triple
+    Pad {	repeat u
+    , 
+      // trailing space 
+// packet A { u8 x, }
+repeat char[]uint8x 
+, 
+}	,u128
+
+    {  repeat
+
+    As
+
+    `u8 x,`
+,pack
+
+msg_type
+
+    , uint32	lengthOf
+    @calculatedFrom(	""1""  )
+,
+match
+    roots
+as 
+        // " ++ [128512]%N ++ runes_of_ascii " emoji
+	x	{ ""{,}""	:
+// " ++ [27880; 37322]%N ++ runes_of_ascii "
+	Pad
+	}
+, }
+
+,
+
+    } root packet tag
+{
+
+string pack
+    ,
+
+    }	root
+
+packet u8x	{	string
+    pack 
+`doc` ,	@lengthOf(
+options1)f32	matchKey
+@calculatedFrom(
+""`tick`""
+    ) `two words`
+    ,
+
+    @leftPad ( '\x00'
+    )	@lengthOf( Packet)
+@tag( 007	//x
+  ) int32 
+Pad
+
+    @calculatedFrom( ""a\\""  )
+, @calculatedFrom( """"
+    )
+    string
+a1 @lengthOf(	metadata
+)
+,
+
+    match
+u128
+    as
+
+Foo{[
+    ""`tick`""	]
+    :msg_type	,10 // a // b
+	: msg_type ,
+
+00
+	:
+	len , ""`tick`"" :
+_x
+
+,  1: repeatCount, [
+    1  , 	 //	t
+		1  ]
+
+:
+        // packet A { u8 x, }
+pack
+,
+
+    } 
+, @leftPad (  ) float64
+    pack  `
+` ,
+
+    }
+")).
+Eval vm_compute in ("<<<M534>>>" ++ check (runes_of_ascii "  packet roots
+    {
+@lengthOf(
+    a1
+)
+    //x
+    uint32 stringy `it's` ,
+@tag( 0  ) string a1
+//	t
+//x
+,match len as zchar {
+    // @lengthOf(
+    42 : lengthOf ,""" ++ [233]%N ++ runes_of_ascii "t" ++ [233]%N ++ runes_of_ascii """ : len """"
+: Z9_
+    ,} ,  @calculatedFrom(
+    ""{,}""  ) // " ++ [128512]%N ++ runes_of_ascii " emoji
+@tag(
+    42 )rootA @lengthOf( repeatCount ) `" ++ [233]%N ++ runes_of_ascii "` // `tick` ""quote"" 'q'
+,  BodyLength
+    {
+    f64 tag `u8 x,`
+    ,
+    //
+    }	,	zchar[
+255 ]
+f32a `
+` , @lengthOf( rootA )
+a1 , @calculatedFrom( """ ++ [28040; 24687]%N ++ runes_of_ascii """ ) repeat u32  As `doc` ,	} packet o
+{ repeat uint8
+    A ,
+    }MetaData u128{ int64 //	t
+x_y_z `doc` , }options { asx // @lengthOf(
+= 65535
+; metadata //
+= u32; pack = zchar[
+    0123456789 ] }root
+packet
+lengthOf
+{
+@leftPad( '0' )
+    @calculatedFrom(
+// " ++ [27880; 37322]%N ++ runes_of_ascii "
+//x
+""it's"" ) int@calculatedFrom( ""`tick`"")
+,i32 len
+, @leftPad
+( '\x00'
+    )repeat	char[]falsey , @tag( 255
+)
+i32
+lengthOf
+    @lengthOf( MetaDataX )  , match int as A { 10
+:
+body ,	""abc"" :
+    a1
+,  }, metadata `a\`, int32 uint8x @lengthOf( repeatCount )
+    ,@leftPad( )crc  body
+,
+    repeat
+T
+{
+    // " ++ [128512]%N ++ runes_of_ascii " emoji
+    float64 x,
+char[] tag
+    // trailing space 
+    `say ""hi""`  , repeat Header { char[] string_ `say ""hi""`  ,Z9_
+, }
+, // " ++ [128512]%N ++ runes_of_ascii " emoji
+}
+    //x
+    ,	}
+")).
+Eval vm_compute in ("<<<M3889>>>" ++ check (runes_of_ascii "
+
+  root packet MetaDataX
+
+    { }
+options {
+	matchKey
+
+=
+
+""abc"" ;i64_
+    = 	 // a // b
+	7
+	;
+len	= 1
+
+    x_y_z
+
+    =  //x
+
+  '0'
+;}
+
+    options { 
+A =
+	7
+len
+    // a // b
+	//x
+  =
+	zchar[  4294967296
+	]
+; o
+=
+
+string
     ; 
-    // c9
-  FixedStringPadFromLeft  
-  // c10
-    = 
-	// c11
+int
 
+=
 false
 
-;  FixedStringPadChar // c14a
-    // c14b
+    f32a
 
-= '0'
-	;	// c17
-
-} 
-    // c18
-      packet 
-	    // c19
-Logout 
-        // c20
-		{ 	 // c21a
-// c21b
-  	f64 // c22
-	f1
-	    // c23
-  ,// c24
-	  i16	// c25
-  Note 	 // c26
-,
-    // c27
-    @rightPad
-        // c28
-(	// c29a
-  	// c29b
-
-  '\x00' 	 // c30
-) 	 // c31a
-    // c31b
-char[ 	 // c32a
-// c32b
-  11	// c33
-		] 	 // c34
-  Flags,  // c36
-		}  // c37
-  packet
-        // c38
-    Cancel 
-
-    // c39
-{ 
-
-// c40
-	  float64 
-        // c41
-msgKind
-// c42
-
-,	// c43a
-
-  // c43b
-  }  // c44
-      packet 
-Reject{ 	 // c47a
-// c47b
-	InQty43 {
-    float32 	 // c50
-	sym 
-    // c51
-		,
-
-// c52
-char[ 	 // c53a
-  // c53b
-	  10	// c54
-    ] 	 // c55a
-    // c55b
-    Tail
-// c56
-,// c57
-    	uint8// c58a
-		// c58b
-		venue ,  // c60
-
-	uint16  // c61a
-
-// c61b
-
-  f1  
-      // c62
-  ,
-        // c63
-      char[ // c64
-      9	]	// c66
-	  Acct 	 // c67a
-// c67b
-
-  ,
-	} 
-
-// c69
-,
-	}
-    // c71
-packet 
-        // c72
-		Trade // c73
-	{ 	 // c74a
-	// c74b
-	char[]  // c75a
-// c75b
-  x // c76a
-    // c76b
-  ,  
-  // c77
-    	zchar[// c78a
-	  // c78b
-
-	6] // c80
-    Note 	 // c81
-  ,  // c82
-    repeat// c83a
-	  // c83b
-Reject // c84
-    	, 	 // c85
-  } 
-	// c86
-  root
-packet	// c88
-  Order  // c89
-      {  // c90a
-  // c90b
-      Cancel  // c91a
-    // c91b
-	,
-
-    // c92
-Logout
-,  // c94
-	u64 	 // c95a
-	// c95b
-      Acct	, 	 // c97
-
-u32 	 // c98a
-
-// c98b
-      OrderId// c99a
-    // c99b
-	  ,	match// c101a
-      // c101b
-OrderId 	 // c102
-		as
-	Body	// c104
-  {
-
-    [ 127  // c107
-  ,	// c108
-    70  // c109
-  ] 	 // c110
-	:	// c111
-  Reject 
-
-    // c112
-	, 
-177  
-      // c114
-    :	// c115a
-  	// c115b
-Trade	// c116a
-    // c116b
-
-,  // c117
-    	58  // c118
-  :
-    // c119
-Logout	, 
-
-// c121
-75
-    : 
-    // c123
-
-  Cancel // c124
-	, // c125
-
-	}// c126a
-// c126b
-  ,	// c127
-	u32// c128
-  Tail@calculatedFrom(  // c130
-""CRC32"" 	 // c131
-	) 
-      // c132
-  ,}")).
-Eval vm_compute in ("<<<M1057>>>" ++ check (runes_of_ascii "packet Foo
-{ @lengthOf(chars ) @leftPad (
-    //x
-    ) repeat
-    metadata
-// @lengthOf(
-// c
-{
-// packet A { u8 x, }
-// " ++ [128512]%N ++ runes_of_ascii " emoji
-_x,u body , match A as Logon { [ ""\" ++ [233]%N ++ runes_of_ascii """ ,10 ,	7 , """" , 0
-//
-// @lengthOf(
-]
-    // packet A { u8 x, }
-    :	stringy, """ ++ [128512]%N ++ runes_of_ascii """
-    // `tick` ""quote"" 'q'
-    : msg_type ,} , uint16
-    asx
-@calculatedFrom(
-    """ ++ [233]%N ++ runes_of_ascii "t" ++ [233]%N ++ runes_of_ascii """	)
-, } , @lengthOf(
-metadata
-    ) match
-matchKey
-as o
-//x
-// `tick` ""quote"" 'q'
-{[ 65535
-,	255 ]: rootA,
-} , @lengthOf(
-    Z9_ )
-match Header as
-o{ 4294967296 : pack , 65535 : MetaDataX
-,  ""CRC32"" : leftPad ,
-[ ""{,}""] :	calculatedFrom
-    , //x
-""" ++ [28040; 24687]%N ++ runes_of_ascii """ // packet A { u8 x, }
-: o ""a\\"" :u
-    ,
-    }
-, @tag( 42 ) @lengthOf( options1	) @lengthOf( o) // c
-match  options1 // `tick` ""quote"" 'q'
-as uint8x{ [
-//x
-// " ++ [27880; 37322]%N ++ runes_of_ascii "
-1 , ""CRC32""	, ""a\\""
-,
-//x
-// c
-1
-, ""// no comment"" , 007  ]
-// a // b
-// `tick` ""quote"" 'q'
-:
-int 0	: repeatCount ,0123456789  :f32a
-[
-//x
-// @lengthOf(
-255, ""\" ++ [233]%N ++ runes_of_ascii """ ,
-""a\\"" ]
-:asx
-,1 : Header
-    // trailing space 
-    , } , match	tag as _x // a // b
-{00
-    : lengthOf ,// " ++ [27880; 37322]%N ++ runes_of_ascii "
-}  , repeat char[] i64_
-,match
-    // " ++ [27880; 37322]%N ++ runes_of_ascii "
-    msg_type as Pad // c
-{// a // b
-""// no comment""
-:asx ,	[
-""" ++ [28040; 24687]%N ++ runes_of_ascii """
-    ,
-""\" ++ [233]%N ++ runes_of_ascii """ ] // c
-:x
-    ,
-0:
-u , /// triple
-10
-:
-Foo
-, } ,
-// trailing space 
-/// triple
-@rightPad
-    ( )
-    //	t
-    u8x
-    ,@leftPad (	'\x00')
-u64
-crc @calculatedFrom( ""`tick`""
-)
-`
-` , @lengthOf( rootA ) zchar[ 00 ]	roots
-, }MetaData
-MetaDataX
-{} packet
-    len // " ++ [27880; 37322]%N ++ runes_of_ascii "
-{  repeat Z9_//x
-{ i8
-    //
-    i8i8,
-    }, match repeatCount
-as
-// trailing space 
-// " ++ [27880; 37322]%N ++ runes_of_ascii "
-asx
-{ ""{,}""
-: tag , 65535 // trailing space 
-: Foo	, 7 : f32a , [
-    """ ++ [28040; 24687]%N ++ runes_of_ascii """ , 0 ]
-    ://	t
-T	,
-    [ 00 , """ ++ [128512]%N ++ runes_of_ascii """
-    // " ++ [27880; 37322]%N ++ runes_of_ascii "
-    ]
-: x_y_z 0123456789 : MetaDataX, }
-    , char[
-    007
-]
-x `" ++ [233]%N ++ runes_of_ascii "`
-//	t
-// " ++ [27880; 37322]%N ++ runes_of_ascii "
-,@leftPad ( )
-i16 Logon@lengthOf( MetaDataX ) ,
-} packet u8x {
-}
-")).
-Eval vm_compute in ("<<<M432>>>" ++ check (runes_of_ascii "packet rootA
-{ @rightPad ( '0' ) string
-leftPad	@calculatedFrom(
-""" ++ [233]%N ++ runes_of_ascii "t" ++ [233]%N ++ runes_of_ascii """ )
-    `two words` , } packet // a // b
-A{ @calculatedFrom( ""it's""	) char[] // @lengthOf(
-msg_type
-@lengthOf( asx ) `u8 x,` ,charz
-    o ,@calculatedFrom(""`tick`"" )
-    @lengthOf( // @lengthOf(
-crc
-// " ++ [27880; 37322]%N ++ runes_of_ascii "
-// trailing space 
-)
-    //
-    match // " ++ [128512]%N ++ runes_of_ascii " emoji
-falsey as metadata	{
-    // @lengthOf(
-    [
-65535
-, 65535
-] :u8x
-, ""\n""
-// @lengthOf(
-// @lengthOf(
-: int // " ++ [128512]%N ++ runes_of_ascii " emoji
-,
-    007 :MetaDataX,
-    ""it's""
-: f32a ,
-    0
-:
-    i8i8 , [
-65535
-, 255 ] : u8x
-,} ,
-    }	packet charz { string
-MetaDataX// a // b
-,
-    // packet A { u8 x, }
-    repeat	char[] _x,
-@rightPad(
-)
-    match pack as
-    //	t
-    string_ {""a	b""	: trueish ,
-""it's""
-// trailing space 
-//
-: A 10 :
-    T
-0
-:// trailing space 
-msg_type,
-    [ 7 ,
-    1 , ""1"" ,// `tick` ""quote"" 'q'
-00// " ++ [27880; 37322]%N ++ runes_of_ascii "
-, 10  ,4294967296
-,
-10 ]: Pad, }
-,// a // b
-A {
-repeat u128
-    { char[ 00 ] a1  `line1
-line2`, //x
-uint8x rootA `say ""hi""` , match uint8x as i64_
-{""" ++ [28040; 24687]%N ++ runes_of_ascii """
-: msg_type	,  ""\n"" : i8i8, } ,
-i64 x_y_z `{ , }` ,}
-// a // b
-// a // b
-, match zchar
-//	t
-// c
-as Header{	3
-:
-    pack	, ""x y"" :packetx ,
-    //x
-    255  : u8x, ""abc"": Z9_ ,""x y"" :
-msg_type [""a\\""
-    ,
-    10 // @lengthOf(
-] // `tick` ""quote"" 'q'
-:	o } , char[
-    // `tick` ""quote"" 'q'
-    0 ]
-    leftPad `{ , }`, string stringy
-@calculatedFrom(
-    ""`tick`""
-)
-    `u8 x,` ,  }, repeat zchar[ 00] // packet A { u8 x, }
-Packet ,repeat u16
-tag , @tag(65535  ) repeat uint64
-    MetaDataX , } MetaData pack { }")).
-Eval vm_compute in ("<<<M1271>>>" ++ check (runes_of_ascii "//	t
-root	packet T { i8 //
-roots, @lengthOf( Pad
-    )
-    @calculatedFrom( // @lengthOf(
-""a	b"") @rightPad ('0' )
-float @calculatedFrom( // " ++ [128512]%N ++ runes_of_ascii " emoji
-""" ++ [28040; 24687]%N ++ runes_of_ascii """//	t
-) `{ , }` ,	@lengthOf(	roots )
-repeat
-    tag {match
-i8i8
-    as packetx{
-// a // b
-/// triple
-[""// no comment"" ] //x
-: // " ++ [128512]%N ++ runes_of_ascii " emoji
-packetx ,""\" ++ [233]%N ++ runes_of_ascii """  :  i8i8 ,""a\\"" : //x
-Packet
-    ,
-    // packet A { u8 x, }
-    00
-/// triple
-// @lengthOf(
-: a1 ,
-    ""1"" :
-Foo
-// a // b
-// packet A { u8 x, }
-, ""\" ++ [233]%N ++ runes_of_ascii """ :	rootA, }//
-,
-    uint8x
-matchKey // " ++ [27880; 37322]%N ++ runes_of_ascii "
-`two words`
-,
-char[ 0123456789 ]  i8i8, }	,  @lengthOf( calculatedFrom
-    //x
-    )
-Foo a1 , @lengthOf( pack ) zchar[ 3  ]
-trueish , } root packet o { /// triple
-}	root packet // " ++ [128512]%N ++ runes_of_ascii " emoji
-tag // `tick` ""quote"" 'q'
-{// c
-@lengthOf(A	)
-uint16 i64_
-    `it's`
-    , // a // b
-repeat roots{
-string stringy
-    ,
-    match _x as int { 7
-:// packet A { u8 x, }
-leftPad , 65535  :lengthOf,
-7 : Foo , ""a\\""
-    //	t
-    : float , 255
-:
-    leftPad
-    007 :u128 ,} ,MetaDataX
-@lengthOf(
-leftPad ) , lengthOf @calculatedFrom( ""`tick`"" )
-,}
-, @rightPad
-() @lengthOf( f32a )	zchar[ 00 ]  T // packet A { u8 x, }
-@calculatedFrom(
-""a\""b"" ) ,  repeat  Pad{ zchar[ 0 ]
-msg_type`say ""hi""`// " ++ [27880; 37322]%N ++ runes_of_ascii "
-,} , u64
-    string_ @lengthOf(
-    // packet A { u8 x, }
-    T	)  `line1
-line2`
-    ,
-    // packet A { u8 x, }
-    }
-")).
-Eval vm_compute in ("<<<M1126>>>" ++ check (runes_of_ascii "packet // `tick` ""quote"" 'q'
-BodyLength {char[ 3//
-]i64_ @calculatedFrom( ""`tick`"" )  `line1
-line2`
-    // trailing space 
-    ,@leftPad// " ++ [128512]%N ++ runes_of_ascii " emoji
-(
-) x `two words` // trailing space 
-,zchar[ 0123456789 ]
-pack
-// a // b
-//	t
-@calculatedFrom(""a\""b""//
-) `crlf
-line`	,	calculatedFrom{ char[
-    255 ] MetaDataX @calculatedFrom( ""packet"" ) `doc` , zchar[
-    //x
-    007
-]leftPad `crlf
-line`,
-uint8x
-    @calculatedFrom(
-""a\""b"") ,
-//
-//
-MetaDataX  _x , },@calculatedFrom( // " ++ [27880; 37322]%N ++ runes_of_ascii "
-""packet"" )
-zchar[  7] repeatCount
-    `" ++ [28040; 24687; 31867; 22411]%N ++ runes_of_ascii "`
-, @lengthOf(Foo ) // " ++ [128512]%N ++ runes_of_ascii " emoji
-int64  A @lengthOf(	charz	)``
-    , @tag(	7
-    ) packetx
-@calculatedFrom( """")`a\`,  } root
-packet u128 { } packet
-Logon {
-    T {
-T
-    @lengthOf(
-// a // b
-//	t
-u8x ) `tab	here` // packet A { u8 x, }
-,
-As `u8 x,`,
-}  , int64
-    T
-, i64 tag // `tick` ""quote"" 'q'
-@lengthOf( i64_ )
-    , @lengthOf( metadata
-) repeat i8
-rootA , int64 Foo // trailing space 
-@lengthOf( a1	) , chars
-    {  string// @lengthOf(
-packetx // a // b
-@lengthOf(chars
-) `" ++ [233]%N ++ runes_of_ascii "` , a1 @calculatedFrom(""a\""b"" ), char[] crc // packet A { u8 x, }
-@lengthOf(i8i8 // " ++ [128512]%N ++ runes_of_ascii " emoji
-)
-    , } , }options{ matchKey  =	' '
-    asx = true ; MetaDataX=	""it's""; }
-
-")).
-Eval vm_compute in ("<<<M809>>>" ++ check (runes_of_ascii "packet	Logon
-{ @calculatedFrom(	""CRC32"" )
-    a1 , @lengthOf(
-    T  ) @lengthOf(
-metadata )len{ repeat Header
-{
-    char[ 0123456789 ]float
-    `// not a comment` ,}
-    , } ,
-    // `tick` ""quote"" 'q'
-    @leftPad (
-)	char[ 7
-    ]
-    x	@calculatedFrom( ""it's"")  ,  char[ 7 ] calculatedFrom , // trailing space 
-char[]o @calculatedFrom( ""x y"" ) ,
-@lengthOf( matchKey )match
-    //	t
-    options1 as	Logon {
-    42 :
-roots, }
-    , @tag(3//
-)int64 MetaDataX ,@calculatedFrom( ""CRC32"" ) @calculatedFrom(""x y""
-    ) char[ 10
-] chars@calculatedFrom( ""packet"" ) `// not a comment`
-, match pack as i8i8{	[
-00] : crc , [ 0,// packet A { u8 x, }
-""it's"" , 7 , 255
-    // a // b
-    ]: trueish [ ""a	b"",// `tick` ""quote"" 'q'
-4294967296 , 1,
-// packet A { u8 x, }
-// packet A { u8 x, }
-42
-,
-0 , ""`tick`""] :
-    Z9_
-    /// triple
-    ,10
-:options1, } , } packet repeatCount { int8
-    falsey@calculatedFrom(
-""" ++ [233]%N ++ runes_of_ascii "t" ++ [233]%N ++ runes_of_ascii """
-)
-    , }
-options{// a // b
-trueish
-//x
-/// triple
-= zchar[ 255
-]	}root packet uint8x
-// c
-/// triple
-{}
-packet
-    rootA {	zchar[ 0 ] leftPad @calculatedFrom(""""
-    // trailing space 
-    )
-    `say ""hi""` ,
-}
-")).
-Eval vm_compute in ("<<<M739>>>" ++ check (runes_of_ascii "MetaData	roots {
-//
-// " ++ [27880; 37322]%N ++ runes_of_ascii "
-char[ //x
-00 ]
-    i8i8 // @lengthOf(
-,
-uint32
-    metadata
-`tab	here`// a // b
-, } options  {
-Header
-/// triple
-// a // b
-=
-    true metadata
-=
-    false Logon //x
-=	42 ; T =
-    // c
-    '\x00'Header
-    =// packet A { u8 x, }
-""\" ++ [233]%N ++ runes_of_ascii """
-} root // trailing space 
-packet // c
-uint8x
-    {char[]// @lengthOf(
-A`" ++ [233]%N ++ runes_of_ascii "`
-    ,@tag( 65535
-    ) uint32 i8i8 ,
-@rightPad( '0'
-    ) zchar[
-// c
-// " ++ [27880; 37322]%N ++ runes_of_ascii "
-0123456789 ]leftPad ,float32 leftPad , @tag(
-// a // b
-// `tick` ""quote"" 'q'
-42) @leftPad
-(
-)
-    /// triple
-    @tag( 0
-) string
-    f32a, @tag( 3
-) char[
-42]
-MetaDataX ,string repeatCount @lengthOf( Foo)`tab	here` ,	@lengthOf(A)repeat roots { repeat len stringy`it's` ,A { zchar[ 42
-] u128  @calculatedFrom( ""CRC32"" ) , } , char[]
-u128 , // " ++ [128512]%N ++ runes_of_ascii " emoji
-}  , @lengthOf(Z9_) u ,
-// c
-// " ++ [128512]%N ++ runes_of_ascii " emoji
-}	MetaData
-/// triple
-//
-len { float64 u8x ,
-char[]
-    //
-    Header , char[ 65535 ] chars`{ , }` ,
-}MetaData
-Pad {
-roots
-a1 , i64 // `tick` ""quote"" 'q'
-u128
-    ,
-    char[  255 ]	rootA , u16	packetx, i32 MetaDataX , u8 stringy
-    , }
-
-")).
-Eval vm_compute in ("<<<M375>>>" ++ check (runes_of_ascii "
-options{ MetaDataX= ' '
-//	t
-// trailing space 
-; trueish = """ ++ [233]%N ++ runes_of_ascii "t" ++ [233]%N ++ runes_of_ascii """ ;
-    /// triple
-    } packet BodyLength{@lengthOf( repeatCount ) char[65535 ]
-    crc @calculatedFrom(
-    """"
-),zchar[0 ]
-x_y_z @calculatedFrom( ""packet"" )`a\` , } packet Header	{	repeat
-    // " ++ [128512]%N ++ runes_of_ascii " emoji
-    T
-{
-//x
-//x
-u128 chars , }, match Pad as
-    crc{ ""a\""b"" :	x , }
-    ,
-    @lengthOf(	rootA
-) @lengthOf(
-stringy )
-i32
-    // a // b
-    x
-,
-    @calculatedFrom( """ ++ [128512]%N ++ runes_of_ascii """
-) int8	u @lengthOf(
-    Pad
-) `doc` , @tag(
-65535)charz { a1
-_x,
-repeat	float32 Header `say ""hi""` ,char u , } ,
-    //x
-    @leftPad ( )
-@leftPad (
-    '0' ) @rightPad( '\x00'
-    )
-    match falsey as As { // " ++ [128512]%N ++ runes_of_ascii " emoji
-""a\\"": pack } /// triple
-,repeat metadata , match i8i8 as u {
-[ 4294967296 ,
-    42 ] // @lengthOf(
-: uint8x ,}  , repeat uint16
-    chars
-// " ++ [27880; 37322]%N ++ runes_of_ascii "
-// @lengthOf(
-`u8 x,` ,
-u16 repeatCount`crlf
-line` ,
-} packet
-    tag {
-    char[ 7 ]// `tick` ""quote"" 'q'
-trueish  , int8
-    string_ ``
-// @lengthOf(
-// @lengthOf(
-,
-    } 	 ")).
-Eval vm_compute in ("<<<M867>>>" ++ check (runes_of_ascii "packet rootA
-    {@calculatedFrom(	""// no comment"" )repeat roots
-`tab	here` , u8x len ,
-    u8x``	,@lengthOf(o )@tag(0) repeat char[] options1
-    , int32 o `" ++ [233]%N ++ runes_of_ascii "`
-, @tag(00) uint16 int , } packet BodyLength {
-@tag( 4294967296  )
-    repeat
-// trailing space 
-/// triple
-zchar[ 1] Z9_ , uint32 leftPad @calculatedFrom( """ ++ [28040; 24687]%N ++ runes_of_ascii """)// packet A { u8 x, }
-, i8 f32a , repeat u8 lengthOf, Header
-{ leftPad ,	repeat stringy { msg_type @lengthOf(  body ) `crlf
-line` ,repeat
-    packetx `say ""hi""`
-// c
-//
-, o ,} , } , repeat int8 f32a `{ , }` // @lengthOf(
-, Z9_
-// packet A { u8 x, }
-// trailing space 
-, body , match tag as
-    //
-    zchar{10 :
-lengthOf , 10
-    : i64_ ,65535:len , 1 :
-msg_type,	""\n""	: Foo , 10:
-zchar
-    ,
-}
-,repeat lengthOf {// `tick` ""quote"" 'q'
-int64 lengthOf @calculatedFrom(""packet"" ) ,
-    repeat calculatedFrom
-    A , repeat char uint8x
-,
-    As	{	stringy
-    // " ++ [128512]%N ++ runes_of_ascii " emoji
-    `it's` ,	} , } // trailing space 
-,
-    //x
-    }
-")).
-Eval vm_compute in ("<<<M3525>>>" ++ check (runes_of_ascii "  options 
-{ StringPrefixLenType = u32;
-    ArrayPrefixLenType	=
-u8  ;	FixedStringPadFromLeft
-=  false
-
-    ;	}packet Logon {
-	i8
-    venue	, int16
-f1
-
-    , 
-zchar[
-	8 ] Acct
-
-    ,
-
-repeat
-
-    InNote16
-
-{  InQty73  {
-float32
-    tag7  ,  }, 
-f32 Acct
-	, zchar[
-	5  ]
-sym
-
-,
-}
-,
-    uint16  Side2	, i32
-	lastPx, } packet
-
-    Fill
-	{ repeat
-InOrderid15  { zchar[
-
-    8
-]
-sym ,	repeat
-	char[  2 ]
-OrderId
-	,	repeat Logon  , InQty82 {char[]
-
-Tail,
-
-    repeat
-    Logon 
-,	float64 price,f64 Side2 , }
-, char[
-    12 ] venue
-,	char[
-4  ]
-
-Px 
-, 
-} ,@rightPad ('0' 
-) char[
-    2
-]  venue,	InPrice99
-	{
-	InAcct72{
-	u8 pad0	,  }  ,
-    u32
-
-    OrderId
-,
-	Logon
-	,	}
-, } root  packet
-Reject
-
-{
-    zchar[	9
-
-]	msgKind,
-
-u32
-
-venue ,  u16
-	seqNo@lengthOf(
-
-Body), match
-
-    venue
-	as  Body {
-57
+=	// trailing space 
+  ""CRC32"" ;
+}  root  packet crc 
+        // " ++ [27880; 37322]%N ++ runes_of_ascii "
+  	{char[]
+string_,
+match  i8i8	// c
+as tag	{	//x
+3
 	:
-	Fill	,
-	8
-	: Logon ,
-
-    },u16
-Tail @calculatedFrom(
-""CRC32"") 
-,
-}
-")).
-Eval vm_compute in ("<<<M1029>>>" ++ check (runes_of_ascii "packet
-T  { }
-    root packet BodyLength{ match falsey
-as MetaDataX {
-[ 4294967296 ]	: _x ,// @lengthOf(
-00: options1 [
-    007  , // `tick` ""quote"" 'q'
-65535 , ""CRC32"" // " ++ [128512]%N ++ runes_of_ascii " emoji
-] : i64_ ,
-} , @leftPad
-()
-    metadata `doc` //x
-,
-Z9_ { repeat  float32	lengthOf
-, packetx { uint16  zchar@calculatedFrom(""" ++ [28040; 24687]%N ++ runes_of_ascii """) ,
-}
-,
-} , @tag(
-7) uint32
-    metadata@calculatedFrom( ""{,}""
-) , char[  65535 ]string_ `a\`
-,	}packet zchar
-{trueish
-    `crlf
-line`
-    ,	@tag(00 ) float Pad// c
-, int16 //x
-options1 @calculatedFrom( ""a\\"" )	, @calculatedFrom( ""x y""
-)  @lengthOf(string_ )metadata @calculatedFrom( ""`tick`""
-)`crlf
-line` , crc
-    // trailing space 
-    packetx `crlf
-line` ,	metadata
-// a // b
-// a // b
-packetx`// not a comment`
-, i8 u128
-    //	t
-    @lengthOf(	int ) , //	t
-@rightPad
-    (' '
-)Header @lengthOf( leftPad ) `doc` ,i8i8 Header``
-    , }")).
-Eval vm_compute in ("<<<M164>>>" ++ check (runes_of_ascii "packet
-    Logon
-{
-    repeat	char
-MetaDataX `say ""hi""`,
-@lengthOf(
-packetx) char[] repeatCount// `tick` ""quote"" 'q'
-`doc` , @leftPad (
-    '0' )@tag(
-7 ) Header@calculatedFrom(
-    """" // " ++ [128512]%N ++ runes_of_ascii " emoji
-)	,
-@lengthOf(
-    /// triple
-    MetaDataX
-) match // trailing space 
-x
-//
-// trailing space 
-as Header
-// trailing space 
-//	t
-{ ""x y"" : u8x // trailing space 
-,
-""" ++ [128512]%N ++ runes_of_ascii """
-: /// triple
-charz , """ ++ [233]%N ++ runes_of_ascii "t" ++ [233]%N ++ runes_of_ascii """
-:// packet A { u8 x, }
-_x,[ 3 , // " ++ [27880; 37322]%N ++ runes_of_ascii "
-00
-    ] :  uint8x , ""it's"" //	t
-:// `tick` ""quote"" 'q'
-rootA[
-    00
-    ,  65535//x
-] :
-    zchar }
-    ,@calculatedFrom( ""// no comment"" )int32 i64_,
-repeat// " ++ [128512]%N ++ runes_of_ascii " emoji
-body {zchar[
-    10  ]
-BodyLength `line1
-line2` , lengthOf Logon
-, // @lengthOf(
-repeat
-    float64	i8i8 ,char[0123456789]leftPad // `tick` ""quote"" 'q'
-`
-` ,	}
-    ,  repeat char[ 255
-    //
-    ] a1`" ++ [28040; 24687; 31867; 22411]%N ++ runes_of_ascii "`, } 	 ")).
-Eval vm_compute in ("<<<M130>>>" ++ check (runes_of_ascii "
-packet
-    o {// trailing space 
-body {
-string options1@lengthOf(int ) ,
-    // " ++ [27880; 37322]%N ++ runes_of_ascii "
-    repeat u
-{ match  tag
-    as
-BodyLength { [	""" ++ [128512]%N ++ runes_of_ascii """
-, /// triple
-""`tick`"" ,
-    // @lengthOf(
-    ""packet"" ,
-""a\\"" ,65535
-, 0123456789 // trailing space 
-]: u
-// `tick` ""quote"" 'q'
-// c
-""a\\"" : rootA ,
-    """ ++ [128512]%N ++ runes_of_ascii """: Foo 3
-:  uint8x ,	} , match leftPad as // `tick` ""quote"" 'q'
-a1
-    {1 : //	t
-Header
-,
-}
-, },
+packetx
     }
-,
-    chars , repeatCount body
-//	t
-// " ++ [128512]%N ++ runes_of_ascii " emoji
-`a\` ,}	packet metadata {
-@rightPad ('0' // " ++ [27880; 37322]%N ++ runes_of_ascii "
+	, @rightPad(
+' '
+
 )
-@leftPad
-( //x
-'0' ) @calculatedFrom( ""packet"") match o as	Logon{ """"
-: A, [
-    007// c
-, 7  , 1
-, """"// trailing space 
-,  42, ""a	b""]  :	A	""it's"" :
-    _x,  },@lengthOf(//x
-Header
-)char[  3 ] i8i8@lengthOf( int )	,char[]Packet @calculatedFrom( ""a	b"")
-, leftPad ,
-    }packet charz { }")).
-Eval vm_compute in ("<<<M633>>>" ++ check (runes_of_ascii "packet u{ uint64
-    u8x , @leftPad (
-'0' )u16
-uint8x@lengthOf( T
-    ), @lengthOf(
-// `tick` ""quote"" 'q'
-// `tick` ""quote"" 'q'
-lengthOf) @lengthOf( msg_type)u16
-tag @calculatedFrom(""a\""b""
+repeat _x 
+// packet A { u8 x, }
+//x
+    { a1	trueish
+`// not a comment`
+, } ,
+	int16// packet A { u8 x, }
+  Z9_ ,
+@lengthOf( uint8x
+
+    // @lengthOf(
+	) 
+	// `tick` ""quote"" 'q'
+	// `tick` ""quote"" 'q'
+	  zchar[  
+      // " ++ [128512]%N ++ runes_of_ascii " emoji
+      4294967296
+] A@lengthOf( 
+i64_ )  //	t
+	`two words`
+    ,  repeat // " ++ [27880; 37322]%N ++ runes_of_ascii "
+  uint64
+
+metadata 
+,
+@calculatedFrom( ""packet""
+
     )
-    // a // b
-    `crlf
-line` ,
-} packet As {@calculatedFrom( ""a\\"")u128 { int16
-string_
-    // c
-    @lengthOf( Header ) , repeat i64_ `{ , }`,
-    },/// triple
-} root packet
-    roots { @calculatedFrom( //	t
-""`tick`"" ) i32 Header `" ++ [233]%N ++ runes_of_ascii "` ,int8 T ,  @rightPad
-( ' ' ) u32
-    charz`doc`, char[ 65535 ]f32a
-    , metadata,
-}  MetaData T { u8x roots
-`it's` ,
-options1 MetaDataX , int32 f32a , } options { // trailing space 
-f32a = '0' Pad =
-//x
-// trailing space 
-0123456789 ;
-    repeatCount
-    // a // b
-    = char[] x_y_z
-//x
+
+    string 
+    //x
+	//	t
+
+x `it's`,
+	match
+
+    T
+
+as
+
+asx
 // " ++ [27880; 37322]%N ++ runes_of_ascii "
+	//	t
+{
+
+    ""abc""
+
+: A
+
+    ,
+""it's"":Logon
+
+    ,
+} , // packet A { u8 x, }
+
+@calculatedFrom(
+    //
+	// a // b
+	""\n"") string
+	_x
+
+    ,  uint64	zchar@lengthOf(
+
+    lengthOf
+
+)
+, } 
+packet uint8x
+	{  }	// a // b
+ 
+")).
+Eval vm_compute in ("<<<M507>>>" ++ check (runes_of_ascii "
+packet _x { repeat o int , match
+int
+    as Logon{
+""packet"" :
+// a // b
+// packet A { u8 x, }
+string_ },
+@leftPad ( '0'
+) zchar[
+1 ] asx , }// @lengthOf(
+packet leftPad { }	root
+packet i8i8{
+    @calculatedFrom(""it's"" ) _x
+    len// " ++ [27880; 37322]%N ++ runes_of_ascii "
+`crlf
+line`, } root
+    packet rootA { char[]
+    rootA @lengthOf( leftPad
+    )`u8 x,` , match
+falsey
+as calculatedFrom {42:
+    Foo }
+,
+    repeat Z9_
+    {
+    uint16 _x// " ++ [128512]%N ++ runes_of_ascii " emoji
+`doc` , zchar[ // `tick` ""quote"" 'q'
+42// " ++ [128512]%N ++ runes_of_ascii " emoji
+]
+u8x ,repeat
+zchar[
+// @lengthOf(
+// c
+42
+/// triple
+// " ++ [27880; 37322]%N ++ runes_of_ascii "
+]Z9_	`// not a comment`, } // trailing space 
+,
+string//
+T,u8x i8i8, @calculatedFrom( ""CRC32"")  u64 zchar,
+//
+// " ++ [128512]%N ++ runes_of_ascii " emoji
+}
+packet Packet {repeat
+    Z9_ int ,
+int16 asx`// not a comment`
+,@lengthOf(	options1
+)
+repeat int8
+    As`" ++ [233]%N ++ runes_of_ascii "`// @lengthOf(
+, @leftPad ( '\x00'
+// " ++ [27880; 37322]%N ++ runes_of_ascii "
+//	t
+)
+o { repeat
+    //
+    rootA
+`crlf
+line`
+    //x
+    ,
+    Packet, }  , @calculatedFrom( ""`tick`""
+    //
+    ) @lengthOf( T
+)
+    //	t
+    repeatCount
+_x  ,
+_x{ i16 x_y_z @lengthOf(a1
+) `
+`,}
+// packet A { u8 x, }
+//
+,
+    }")).
+Eval vm_compute in ("<<<M3508>>>" ++ check (runes_of_ascii "options {
+    // c1
+LittleEndian // c2
+= // c3a
+  // c3b
+false ; // c5a
+  // c5b
+StringPrefixLenType // c6
 =
-'\x00'
+    // c7
+u32
+    // c8
+; // c9a
+  // c9b
+ArrayPrefixLenType // c10
+= // c11
+u16
+    // c12
+; // c13
+} // c14a
+  // c14b
+packet // c15
+Party {
+    // c17
+@leftPad // c18a
+  // c18b
+(
+    // c19
+'0'
+    // c20
+) // c21
+char[ 12 // c23a
+  // c23b
+] // c24a
+  // c24b
+Ref // c25
+,
+    // c26
+repeat
+    // c27
+char[
+    // c28
+6
+    // c29
+] x , // c32
+}
+    // c33
+packet
+    // c34
+Logon // c35a
+  // c35b
+{ uint32 // c37
+clOrdID , // c39a
+  // c39b
+Party , } // c42
+root
+    // c43
+packet // c44
+Ack
+    // c45
+{ zchar[ 2 // c48a
+  // c48b
+] // c49a
+  // c49b
+f1
+    // c50
+, // c51a
+  // c51b
+u32
+    // c52
+seqNo
+    // c53
+, // c54a
+  // c54b
+u32 Side2
+    // c56
+@lengthOf( Body // c58
+) // c59
+, match seqNo as
+    // c63
+Body {
+    // c65
+43 // c66
+:
+    // c67
+Logon , // c69a
+  // c69b
+93 // c70
+: // c71
+Party // c72a
+  // c72b
+, } // c74
+, // c75a
+  // c75b
+} ")).
+Eval vm_compute in ("<<<M168>>>" ++ check (runes_of_ascii "packet // trailing space 
+crc {	match	trueish
+    as pack {[// trailing space 
+007
+    , ""`tick`""
+    , 42 ,3 ,
+""x y"" ] :
+    // " ++ [128512]%N ++ runes_of_ascii " emoji
+    u128
+, } , // packet A { u8 x, }
+@tag( 255
+)
+    lengthOf
+    // " ++ [128512]%N ++ runes_of_ascii " emoji
+    lengthOf , repeat zchar[ 0123456789]
+    calculatedFrom`" ++ [233]%N ++ runes_of_ascii "` , // trailing space 
+@calculatedFrom(
+""" ++ [28040; 24687]%N ++ runes_of_ascii """ ) repeat/// triple
+f32a ,repeat char[]
+// packet A { u8 x, }
+/// triple
+msg_type
+`u8 x,` ,
+    x @calculatedFrom( ""{,}"" ) , f32 uint8x// packet A { u8 x, }
+`two words`,
+    char[  0 ]
+i8i8 , @calculatedFrom(
+""1"" ) rootA BodyLength,
+repeat string a1 //	t
+, } root// " ++ [128512]%N ++ runes_of_ascii " emoji
+packet
+// c
+// " ++ [27880; 37322]%N ++ runes_of_ascii "
+metadata
+{ @calculatedFrom( ""abc"" ) options1 // trailing space 
+Header ,
+// @lengthOf(
+// " ++ [27880; 37322]%N ++ runes_of_ascii "
+}root
+packet charz{
+repeat stringy ,@tag( 3 // trailing space 
+)
+    Foo x_y_z`{ , }` ,
+    char[
+    1]
+Logon
+@lengthOf( float)
+,	int8
+    int
+    ,
+    } //	t
+packet Packet { char[] zchar
+//x
+// " ++ [128512]%N ++ runes_of_ascii " emoji
+`
+`
+    // c
+    , }
+")).
+Eval vm_compute in ("<<<M3937>>>" ++ check (runes_of_ascii "packet chars {
+}
+
+options {
+    calculatedFrom = i8;
+}
+
+packet x {
+    @tag(255)
+    // `tick` ""quote"" 'q'
+    match u8x as leftPad {
+        [1, ""\n"", ""a\""b""] : stringy,
+    },
+    float @calculatedFrom(""\n"") `
+        `,
+    @calculatedFrom(""{,}"")
+    repeat char[0123456789] Header,
+    body {
+        f32a `" ++ [28040; 24687; 31867; 22411]%N ++ runes_of_ascii "`,
+        char[10] Pad @lengthOf(packetx) `line1
+                line2`,
+        match Header as crc {
+            [7] : roots,
+            4294967296 : Header,
+            255 : crc,
+            00 : Z9_,
+            255 : Z9_,
+            [42, 255] : repeatCount,
+        },
+        leftPad {
+            repeat asx `" ++ [28040; 24687; 31867; 22411]%N ++ runes_of_ascii "`,
+            float,
+        },
+    },
+    @leftPad()
+    @lengthOf(Foo)
+    @calculatedFrom(""abc"")
+    uint64 BodyLength,
+    @tag(65535)
+    i64 u8x `it's`,
+    @tag(0)
+    /// triple
+    crc {
+        zchar[65535] u `tab	here`,
+    },// a // b
+}")).
+Eval vm_compute in ("<<<M1175>>>" ++ check (runes_of_ascii "// a // b
+root packet
+    // trailing space 
+    charz { @tag(007 ) repeat u32
+    chars, Packet
+`doc`
+    , } MetaData rootA // `tick` ""quote"" 'q'
+{  char[ 42 ]Packet
+    `crlf
+line` , }// c
+packet asx
+{repeat  calculatedFrom{
+asx @lengthOf(	chars
+    )  ,repeat string //	t
+x_y_z `line1
+line2`
+, repeat u32  i64_ //	t
+`it's` ,A
+    //x
+    @lengthOf(
+Logon ) `tab	here` , }
+    ,
+uint32
+asx // c
+@lengthOf(
+BodyLength) ,
+// " ++ [27880; 37322]%N ++ runes_of_ascii "
+// " ++ [27880; 37322]%N ++ runes_of_ascii "
+char[ 0123456789 ] calculatedFrom ,repeat Z9_,
+match
+    asx //	t
+as uint8x {// c
+[ ""{,}"",
+    // `tick` ""quote"" 'q'
+    ""it's""
+    , 7 ,""CRC32""
+] :
+msg_type
+    ,
+    [
+    // packet A { u8 x, }
+    1	]// " ++ [128512]%N ++ runes_of_ascii " emoji
+: u8x ""CRC32""
+:  T, }
+    // @lengthOf(
+    ,
+i8
+    charz	@calculatedFrom(
+    ""x y""
+)
+    // `tick` ""quote"" 'q'
+    `" ++ [233]%N ++ runes_of_ascii "` ,
+    }MetaData u8x
+{
+    // " ++ [128512]%N ++ runes_of_ascii " emoji
+    i8 T , }
+")).
+Eval vm_compute in ("<<<M3692>>>" ++ check (runes_of_ascii "packet msg_type {
+    @rightPad('\x00')
+    calculatedFrom chars,
+}
+
+packet string_ {
+}
+
+MetaData o {
+    zchar[65535] a1,
+}
+
+root packet Foo {
+    f32a {
+        // " ++ [128512]%N ++ runes_of_ascii " emoji
+        match len as Packet {
+            [3] : body,
+            7 : o,
+            [00, 0, ""x y"", 42] : u,
+            """ ++ [28040; 24687]%N ++ runes_of_ascii """ : Pad,
+        },
+        i64 A,
+        string u8x,
+        match stringy as As {
+            65535 : i8i8,
+            //x
+            ""CRC32"" : u8x,
+            [
+                ""a\""b"", 7, ""\n"", ""{,}"", 0,
+                42, ""a\""b""
+            ] : MetaDataX,
+            [""abc""] : falsey,
+            // @lengthOf(
+            [""`tick`""] : calculatedFrom,
+        },
+    },
+}// " ++ [128512]%N ++ runes_of_ascii " emoji
+
+options {
+    body = ""CRC32"";
+    body = ""a\""b""
+    u128 = true;
+    BodyLength = 10;
+    leftPad = false;
+}")).
+Eval vm_compute in ("<<<M308>>>" ++ check (runes_of_ascii "root packet options1 //	t
+{ @lengthOf( Packet )
+//x
+//	t
+repeat chars // " ++ [128512]%N ++ runes_of_ascii " emoji
+{ repeatCount
+u128 , match u as
+BodyLength/// triple
+{
+[ 65535 ] :
+// trailing space 
+//x
+packetx // a // b
+,
+3 :
+    zchar ,
+255: roots """ ++ [233]%N ++ runes_of_ascii "t" ++ [233]%N ++ runes_of_ascii """// c
+: Header}
+    , i64 Packet,	char[]	uint8x @calculatedFrom(
+""// no comment""  ) `crlf
+line`
+,
+    } , string
+trueish , @leftPad  (' '  )
+i8i8	{/// triple
+float64
+T @lengthOf( leftPad )
+    ,// @lengthOf(
+u128 `" ++ [233]%N ++ runes_of_ascii "`
+    , lengthOf, // a // b
+matchKey ,
+    },
+    repeat
+    char[1] MetaDataX	`a\`  ,
+// c
+// " ++ [128512]%N ++ runes_of_ascii " emoji
+@calculatedFrom( ""1"" )string chars
+    `it's` , char[] calculatedFrom
+    @lengthOf(
+    calculatedFrom) `doc`, rootA// @lengthOf(
+_x
+// `tick` ""quote"" 'q'
+/// triple
+`" ++ [28040; 24687; 31867; 22411]%N ++ runes_of_ascii "` , } MetaData calculatedFrom {  u tag `
+`,
 }
 ")).
-Eval vm_compute in ("<<<M962>>>" ++ check (runes_of_ascii "  MetaData
-stringy{ Packet
-    falsey `" ++ [28040; 24687; 31867; 22411]%N ++ runes_of_ascii "`
-, }
-packet Foo
-{@lengthOf(i8i8 ) zchar[ 10 ]
-    chars // a // b
-`{ , }`,	@calculatedFrom( ""1"") char[ 007 // " ++ [27880; 37322]%N ++ runes_of_ascii "
-] x ,@lengthOf(  int
-    )  zchar[10] string_ `two words` , repeat repeatCount { u32
-len // c
-, T
-rootA , char[ 7 ] falsey @lengthOf( crc ),
+Eval vm_compute in ("<<<M3777>>>" ++ check (runes_of_ascii "
+
+  options{
+} MetaData metadata {
+
+float32 u128 
+`" ++ [28040; 24687; 31867; 22411]%N ++ runes_of_ascii "` 
+,
+
+}
+    packet roots
+
+{
+	i64 uint8x
+
+    `` 
+
+    // `tick` ""quote"" 'q'
+// `tick` ""quote"" 'q'
+    	, 
+@tag(3
+	)  // packet A { u8 x, }
+  @tag(
+0123456789
+)  stringy
+    @lengthOf( Header
+) `u8 x,` , f64
+u //x
+  `tab	here`
+    , match
+    u8x 
+as
+u8x 
+// `tick` ""quote"" 'q'
+	{ 
+10
+: string_,  } 
+, 
+zchar[  7]  u 
+@calculatedFrom( // a // b
+
+""packet""
+)	, @leftPad 
+(
+
+    )repeat
+	asx
+
+_x
+    ,
+zchar[ 	 // `tick` ""quote"" 'q'
+      7]uint8x	, body
+{ repeat
+zchar[
+3]As 
+,
+string Header,	char[] u
+,
+} ,
+repeat	Logon
+    {repeat
+
+    zchar[ 
+65535]packetx	`// not a comment`, 
+}
+	,} // packet A { u8 x, }
+	MetaData  msg_type
+    {
+	f64 
+crc `{ , }` ,
+    }
+
+")).
+Eval vm_compute in ("<<<M696>>>" ++ check (runes_of_ascii "
+MetaData
+packetx { }
+    MetaData _x { char[ 255] string_
+, int32	trueish  `u8 x,` ,}
+packet
+    //	t
+    asx{x_y_z, @calculatedFrom( ""it's"" )
+match // a // b
+Pad
+as falsey {
+[ ""`tick`"" ,	7 , """ ++ [28040; 24687]%N ++ runes_of_ascii """
+,
+    """ ++ [233]%N ++ runes_of_ascii "t" ++ [233]%N ++ runes_of_ascii """ , ""a\\""
+,
+// " ++ [27880; 37322]%N ++ runes_of_ascii "
+//x
+3
+,
+    // " ++ [27880; 37322]%N ++ runes_of_ascii "
+    65535 ]:// " ++ [128512]%N ++ runes_of_ascii " emoji
+packetx,
+    // @lengthOf(
+    1
+    :	zchar
 // " ++ [128512]%N ++ runes_of_ascii " emoji
-// packet A { u8 x, }
-int16// `tick` ""quote"" 'q'
-BodyLength
-    // a // b
-    , } ,packetx @lengthOf(	u
-// c
-// @lengthOf(
-) ,zchar[
-3 ] chars // c
-, float32
-x_y_z `{ , }` ,@calculatedFrom( ""1"")
-    uint16 trueish@calculatedFrom(""" ++ [128512]%N ++ runes_of_ascii """)
-    `line1
-line2`,
-Z9_ chars	, }root packet crc {	char[]	T ,	}
-MetaData len  { uint16
-uint8x , f64 string_`" ++ [28040; 24687; 31867; 22411]%N ++ runes_of_ascii "` ,
-char[]
-i8i8`// not a comment`
-    ,}")).
+// " ++ [27880; 37322]%N ++ runes_of_ascii "
+,
+[ ""a\""b"" , 42 ] // a // b
+:f32a , } , @tag(	007 //
+)
+    repeat string
+    len
+`doc`	,@calculatedFrom(
+    ""a\\"" )// `tick` ""quote"" 'q'
+matchKey
+//	t
+// `tick` ""quote"" 'q'
+calculatedFrom `{ , }`, u8x@lengthOf( T )
+`it's`,
+}MetaData packetx { metadata  o`" ++ [233]%N ++ runes_of_ascii "`
+    , i32 u128
+`a\` , char[]msg_type , uint32 u, u32
+Packet`" ++ [28040; 24687; 31867; 22411]%N ++ runes_of_ascii "`
+    ,
+    int16
+    len`" ++ [28040; 24687; 31867; 22411]%N ++ runes_of_ascii "` ,	}
+")).
 Eval vm_compute in ("<<<M326>>>" ++ check (runes_of_ascii "options {
 a1 = '\x00';Pad=
 char[007 ] ;
@@ -1177,408 +1282,381 @@ zchar , // `tick` ""quote"" 'q'
 ,
 } options { }
 ")).
-Eval vm_compute in ("<<<M3938>>>" ++ check (runes_of_ascii "  // top
-    packet
-    // c0
-Sub// c1
-		{  // c2a
-	  // c2b
-u8  // c3a
-		// c3b
-
-  a // c4a
-  // c4b
-  ,
-	@calculatedFrom(
-// c6
-  ""CRC16""
-    ) 
-      // c8
-	i16// c9a
-	  // c9b
-      SubSum// c10
-  ,
-
-}	// c12
-	root// c13a
-	// c13b
-
-packet
-Frame 
-  // c15
-{u16 // c17a
-// c17b
-    MsgType ,
-        // c19
-	u16  // c20a
-    // c20b
-		BodyLen
-    // c21
-		@lengthOf(
-    // c22
-Body  // c23
-	),	// c25a
-
-	// c25b
-      Sub
-    // c26
-	Body
-, 
-string // c29
-  note
-
-,	// c31
-
-@calculatedFrom( 
-    // c32
-		""CRC16""
-    )  // c34a
-    // c34b
-i16
-    Checksum,// c37
-    u8	tail 
-// c39
-,// c40a
-	// c40b
-    }
-")).
-Eval vm_compute in ("<<<M3939>>>" ++ check (runes_of_ascii "// a // b
-packet matchKey {
-    @rightPad(' ')
-    @tag(007)
-    @lengthOf(float)
-    repeat packetx,
-    @calculatedFrom(""a\""b"")
-    @tag(255)
-    @tag(00)
-    Pad @calculatedFrom(""" ++ [28040; 24687]%N ++ runes_of_ascii """) `{ , }`,
-}
-
-root packet string_ {
-    repeat Logon {
-        match Z9_ as float {
-            ""packet"" : packetx,
-            [42, 00, ""CRC32"", ""packet""] : Foo,
-            """ ++ [28040; 24687]%N ++ runes_of_ascii """ : BodyLength,
-            [""CRC32""] : x_y_z,
-            00 : packetx,
-            7 : rootA,
-        },
-    },
-    repeat metadata {
-        u16 Logon `
-        `,
-        matchKey @calculatedFrom(""""),
-        repeat char[] leftPad,
-    },
-}")).
-Eval vm_compute in ("<<<M3778>>>" ++ check (runes_of_ascii "
-
-  root 
-packet	T
-
-{
-@calculatedFrom(
-""it's"")  repeat  
-  // @lengthOf(
-u64 x_y_z,
-
-    u64 
-f32a 
-      // " ++ [128512]%N ++ runes_of_ascii " emoji
-`say ""hi""`
-
-, repeat u32
-    u8x //	t
-  	,
-@lengthOf( calculatedFrom
-	)match
-
-u as	T //x
-  	{
-
-    1 
-: Pad
-
+Eval vm_compute in ("<<<M1386>>>" ++ check (runes_of_ascii "packet
+Packet
+{ MetaDataX @calculatedFrom( ""abc""), i32 zchar
     ,
-
-    42
-
-:
-	Z9_ [
-1 ]  :
-o	, 
-}
-    , uint8
-uint8x@lengthOf(Logon)
-
-, }
-	// `tick` ""quote"" 'q'
-  // @lengthOf(
-  packet
-    string_ {
-	len,
-	char[]pack @calculatedFrom( ""a\""b"" )  , len
-    @lengthOf( _x)
-`say ""hi""`
-
-    ,@lengthOf(  rootA
-
-    )
-
-    @tag(
-
-    4294967296
-    ) len
-a1 , @tag(
-	7
-	) u16 T
-,} //	t
-")).
-Eval vm_compute in ("<<<M690>>>" ++ check (runes_of_ascii "packet Z9_	{a1,
-}root packet crc
-    {
-/// triple
-// trailing space 
-u32 o@calculatedFrom( ""it's""
-)
-,
-    float32
-lengthOf  , zchar[4294967296
-    //	t
-    ] repeatCount @lengthOf( MetaDataX ) `{ , }` ,//
-@rightPad ( '0'
+    // c
+    @calculatedFrom( """ ++ [128512]%N ++ runes_of_ascii """ )
+    repeat x_y_z `tab	here`
+, len
+@calculatedFrom(""`tick`"" ) `{ , }` ,repeat
+char[ 7 ]	asx `
+` ,@tag(7
+//	t
 // packet A { u8 x, }
-// c
-) body {
-string Packet
-`tab	here` ,}
-    ,	repeat i8i8 {match
-BodyLength as Foo{ 7 : f32a , 42
-    : A ""packet"" : uint8x , [ ""a\\"" ]
-    // a // b
-    :  u8x	, ""it's"" : As
-, } , repeat zchar[ 65535 ] crc , char[]
-chars `a\`
-    ,}//	t
-,  char[ 4294967296 ]	repeatCount `two words`,
-    }")).
-Eval vm_compute in ("<<<M549>>>" ++ check (runes_of_ascii "packet int	{ @lengthOf( body
-) @leftPad
-    // @lengthOf(
-    ( )@lengthOf( pack ) u32 o , int32
-// c
-// packet A { u8 x, }
-u8x
-    , @calculatedFrom(""a\\"" // @lengthOf(
-)x
-chars	,//	t
-@tag( 65535) charz
-{  msg_type u128 , } ,Pad charz ,repeat len { zchar[ 0
-] roots `doc`, char[ 7
-    ] o `a\` ,
-repeat int64 pack
-    ,
-} ,  @rightPad	( ' ' // c
 ) repeat
-options1	{
-    /// triple
-    zchar[ 3 ] Foo ,
-char[
-    7 ]
-x_y_z
-    @calculatedFrom(
-/// triple
-//	t
-""a\""b"" ) ,
-repeat
-packetx , }//x
-, }
-")).
-Eval vm_compute in ("<<<M562>>>" ++ check (runes_of_ascii "MetaData	Z9_
-    { char[ 00 ] i64_ `say ""hi""` ,
-char
-Foo
-, char[	10 ] uint8x ,zchar[ 65535 ]
-    float // @lengthOf(
-`// not a comment` , f32
-body `two words` , //x
-i32
-    body
-    `{ , }` //	t
-,
-    } root
-// trailing space 
-// trailing space 
-packet// @lengthOf(
-i64_{
-    // @lengthOf(
-    }
-MetaData options1 { i64 i8i8
-`" ++ [28040; 24687; 31867; 22411]%N ++ runes_of_ascii "` , Logon metadata
-    `tab	here` , i64_ calculatedFrom // c
-`" ++ [28040; 24687; 31867; 22411]%N ++ runes_of_ascii "`	,}
-options
-{
-charz=
-""a\""b"" ;
-chars = ' ' ; Header = 10 ;  i64_ =""\n"" ;	}
-")).
-Eval vm_compute in ("<<<M179>>>" ++ check (runes_of_ascii "  packet
-    body
-//x
-/// triple
-{ } packet Foo {int @lengthOf( x
-    ) , float32 len
-    `" ++ [28040; 24687; 31867; 22411]%N ++ runes_of_ascii "`, repeat f32a Packet ,	i8 // @lengthOf(
-stringy
-/// triple
-// trailing space 
-@calculatedFrom(""// no comment"" )
-`line1
-line2`
+int64 // " ++ [128512]%N ++ runes_of_ascii " emoji
+x// trailing space 
+, uint32 f32a
+`u8 x,`, }
+    packet uint8x{match body as u{ [ 10 ]
+    : repeatCount,
+[ 4294967296 ] :metadata
     ,
-@tag( 0
-    // a // b
-    ) match  u
-    as
-    falsey
-    //
-    { [ 10 , 3, ""`tick`"" , 42	, 3// `tick` ""quote"" 'q'
-]
-    : Pad  ,
-7 : repeatCount// c
-, 0 :
-    Foo}, }MetaData Packet { string// c
-u , }options { uint8x = true
-; }
+} ,repeat x_y_z{
+u8 MetaDataX@lengthOf( packetx )
+    `" ++ [233]%N ++ runes_of_ascii "`
+, } ,
+float32 body ,// " ++ [27880; 37322]%N ++ runes_of_ascii "
+repeat
+BodyLength string_ , char string_
+    `line1
+line2`	, @tag( 7) char[] len @calculatedFrom( """ ++ [233]%N ++ runes_of_ascii "t" ++ [233]%N ++ runes_of_ascii """) , repeat float32 _x ,
+Header uint8x
+`it's` , }
 ")).
-Eval vm_compute in ("<<<M1130>>>" ++ check (runes_of_ascii "packet
-matchKey
-{
-    repeat matchKey,	@rightPad(
-)uint64 i64_ @calculatedFrom(""1"" )`crlf
-line`
-// trailing space 
-//	t
-, repeat	crc crc, // c
-roots
-// " ++ [27880; 37322]%N ++ runes_of_ascii "
-// packet A { u8 x, }
-{ string lengthOf `doc` , }
-, i16	pack , Foo , u128 { repeat
-uint8 T ,} ,
-string	Packet ,  uint64
-f32a
-@calculatedFrom( ""\" ++ [233]%N ++ runes_of_ascii """ ) , repeat
-    T{
-u64 roots@calculatedFrom( ""CRC32"" ) `// not a comment` ,
-    int16 msg_type ,stringy trueish  , repeat
-    T
-float
-, } , }")).
-Eval vm_compute in ("<<<M163>>>" ++ check (runes_of_ascii "
-packet
-    float {
-    char[ 00 ] u8x ,	}
-packet // " ++ [128512]%N ++ runes_of_ascii " emoji
-A // @lengthOf(
-{ string
-i8i8 , A //x
-@calculatedFrom(
-""a	b"" ) `a\`, @tag( 1 )
-    chars	@lengthOf( Pad ) `u8 x,`
-    , /// triple
-match repeatCount as stringy { 42 :
-x
-3: // @lengthOf(
-tag, [ 00 , 0123456789
-] : packetx , [ """ ++ [28040; 24687]%N ++ runes_of_ascii """	, ""packet""
-]: string_ , }	,
-}options // @lengthOf(
-{ i8i8= """ ++ [233]%N ++ runes_of_ascii "t" ++ [233]%N ++ runes_of_ascii """ Foo
-    = false
-    // packet A { u8 x, }
-    ;  Pad =
-' '
-    ;}")).
-Eval vm_compute in ("<<<M595>>>" ++ check (runes_of_ascii "root packet
-    body { // `tick` ""quote"" 'q'
-x_y_z @calculatedFrom(
-""\" ++ [233]%N ++ runes_of_ascii """  ) `" ++ [233]%N ++ runes_of_ascii "` ,
-@lengthOf( stringy ) asx `crlf
-line` , @calculatedFrom(""{,}"")	float { repeat chars `doc` ,
-} , }root
-    // packet A { u8 x, }
-    packet trueish // " ++ [27880; 37322]%N ++ runes_of_ascii "
-{ uint8x `tab	here`
-    , @calculatedFrom(
-    ""it's"" )
-    u16 trueish `{ , }`
-, @lengthOf( // " ++ [128512]%N ++ runes_of_ascii " emoji
-stringy )
-i8i8{ u16 MetaDataX``, string matchKey ,
-    //	t
-    }  ,}
-")).
-Eval vm_compute in ("<<<M105>>>" ++ check (runes_of_ascii "
-MetaData u8x {
-    packetx
-    len `crlf
-line`
-    ,char[
-255
-] calculatedFrom `" ++ [28040; 24687; 31867; 22411]%N ++ runes_of_ascii "` , float64  MetaDataX // `tick` ""quote"" 'q'
-`say ""hi""` ,BodyLength
-// `tick` ""quote"" 'q'
-// trailing space 
-charz
-`crlf
-line`// a // b
-,
-}packet lengthOf{
-    //	t
-    @tag( 4294967296 ) uint8x @calculatedFrom(
-    ""\n"" ) `" ++ [28040; 24687; 31867; 22411]%N ++ runes_of_ascii "` ,
-    char calculatedFrom	@calculatedFrom(
-""" ++ [28040; 24687]%N ++ runes_of_ascii """) // " ++ [27880; 37322]%N ++ runes_of_ascii "
-`two words` , }
-")).
-Eval vm_compute in ("<<<M4406>>>" ++ check (runes_of_ascii "
-
-  root
-packet float{
-
-char[]
-
-    metadata	`two words` ,	match	u128 
-as leftPad 	 // packet A { u8 x, }
-	{ ""packet""	// c
-	:
-f32a
-	,	}
-	,  i64
-	MetaDataX
-    @lengthOf(options1 
-)	,
-zchar[
-00] 
-        // @lengthOf(
-  //
-
-Logon , @lengthOf( falsey  )  char[  00] 
-i64_ ,
-
-    @lengthOf(
-Pad
-    )
-u32
-Pad `tab	here`
-	,
-uint8 
-metadata
-	,// packet A { u8 x, }
+Eval vm_compute in ("<<<M3540>>>" ++ check (runes_of_ascii "options {
+    LittleEndian = true;
+    FixedStringPadFromLeft = true;
+    FixedStringPadChar = '0';
 }
+packet Trade {
+    string clOrdID,
+    char[] Px,
+    u32 x,
+}
+packet Reject {
+    int32 Side2,
+    repeat char[3] clOrdID,
+    i32 tag7,
+}
+packet Leg {
+}
+root packet Quote {
+    string Side2,
+    string lastPx,
+    InSym58 {
+        int16 OrderId,
+        Reject,
+        i8 Qty,
+        i64 venue,
+        f32 Note,
+    },
+    char[] count,
+    zchar[9] price,
+    u16 Qty,
+    match Qty as Body {
+        69 : Leg,
+        48 : Trade,
+        51 : Reject,
+    },
+    u16 Acct @calculatedFrom(""CRC32""),
+}
+")).
+Eval vm_compute in ("<<<M910>>>" ++ check (runes_of_ascii "packet repeatCount
+    { match BodyLength as body{ 255: As ,	}	,_x @calculatedFrom(  ""x y"" ) `" ++ [233]%N ++ runes_of_ascii "` ,@calculatedFrom( ""1"" ) // @lengthOf(
+repeat uint32 A , zchar[ 00 ] x_y_z
+,  @rightPad (
+'0' )@leftPad
+( ' ' //x
+) i32 lengthOf , repeat
+// packet A { u8 x, }
+//	t
+i64 len `" ++ [28040; 24687; 31867; 22411]%N ++ runes_of_ascii "` ,
+@calculatedFrom(""packet"" ) stringy
+float , @calculatedFrom( ""{,}"" )
+    repeat
+    char[ 7
+    ]u8x `two words`
+,
+    } options
+    { int	=""a\""b"" ;
+Header	=
+    true; trueish = zchar[
+00// packet A { u8 x, }
+]; falsey = false ; Pad =
+//	t
+// `tick` ""quote"" 'q'
+zchar[
+1 ] }//
+packet T{ }
+")).
+Eval vm_compute in ("<<<M153>>>" ++ check (runes_of_ascii "packet  BodyLength { @rightPad // packet A { u8 x, }
+()
+i32 packetx
+@lengthOf( leftPad) ,  @lengthOf( MetaDataX
+    ) leftPad
+    ,
+    _x {
+match
+zchar as zchar {
+    [ // `tick` ""quote"" 'q'
+""a\\"" ]
+: crc """ ++ [28040; 24687]%N ++ runes_of_ascii """ :
+Foo ,  1 : trueish ,	42 : rootA , [ 4294967296
+// @lengthOf(
+// `tick` ""quote"" 'q'
+]
+    //	t
+    :
+    float
+    // " ++ [128512]%N ++ runes_of_ascii " emoji
+    ""a\\"": Foo ,}  ,	repeat
+float
+    leftPad, uint8x i8i8 ,char[ 255  ]As// trailing space 
+,	} ,  char[
+    // " ++ [27880; 37322]%N ++ runes_of_ascii "
+    4294967296
+] uint8x`u8 x,` , @leftPad ( )
+float32
+body `two words` , }
+")).
+Eval vm_compute in ("<<<M4314>>>" ++ check (runes_of_ascii "packet calculatedFrom {
+    // trailing space 
+    @lengthOf(crc)
+    string a1 `say ""hi""`,
+    repeat int64 float `" ++ [28040; 24687; 31867; 22411]%N ++ runes_of_ascii "`,
+    // trailing space 
+    // " ++ [128512]%N ++ runes_of_ascii " emoji
+    @calculatedFrom(""`tick`"")
+    BodyLength @calculatedFrom(""packet""),
+    char[65535] pack,
+}
+
+packet Logon {
+    u falsey,
+    repeat i8i8,
+    calculatedFrom @calculatedFrom(""" ++ [28040; 24687]%N ++ runes_of_ascii """),
+    // c
+    repeat A As,
+}
+
+MetaData uint8x {
+    matchKey T `" ++ [233]%N ++ runes_of_ascii "`,
+    o T,
+    char[00] int `crlf
+        line`,
+    char[3] pack,
+    len a1 `say ""hi""`,
+}")).
+Eval vm_compute in ("<<<M167>>>" ++ check (runes_of_ascii "root
+packet i64_{
+    packetx
+// " ++ [128512]%N ++ runes_of_ascii " emoji
+// " ++ [27880; 37322]%N ++ runes_of_ascii "
+{	string zchar // c
+@calculatedFrom(
+""`tick`""
+    )
+    `
+`
+, zchar[1 ]  metadata	`doc`	, Foo
+    @calculatedFrom(
+""CRC32""
+    )
+    ,}
+    //	t
+    ,char[]roots `crlf
+line`
+//	t
+//x
+, @calculatedFrom(""it's"" )  char
+    rootA
+    ,
+@tag( 7 )
+    charz o //x
+`it's`
+, // a // b
+char[ 007] msg_type@lengthOf(x_y_z )
+,
+    repeat //	t
+zchar[ 007 ]repeatCount `say ""hi""` , match i64_ as rootA
+{ [""abc"" ] :T }
+, repeat chars ,  }
+")).
+Eval vm_compute in ("<<<M1017>>>" ++ check (runes_of_ascii "  MetaData// `tick` ""quote"" 'q'
+zchar {packetx calculatedFrom `doc` , zchar[ 3	]
+    Z9_
+, char[ 65535 ]i64_	,
+    u64
+lengthOf `
+`, zchar[
+    // " ++ [128512]%N ++ runes_of_ascii " emoji
+    00
+    ] Pad
+`{ , }` ,
+A lengthOf
+`two words`
+    ,}  MetaData BodyLength
+// c
+// " ++ [128512]%N ++ runes_of_ascii " emoji
+{  char[
+3 // " ++ [27880; 37322]%N ++ runes_of_ascii "
+] u128
+    ,
+// `tick` ""quote"" 'q'
+/// triple
+string MetaDataX,
+u8x // " ++ [128512]%N ++ runes_of_ascii " emoji
+i64_
+`u8 x,`,/// triple
+} MetaData
+chars
+    { string Logon `{ , }`
+    ,char[
+    10] u ,
+len  repeatCount,	} 	 ")).
+Eval vm_compute in ("<<<M1339>>>" ++ check (runes_of_ascii "packet trueish { @tag(  007  )len {
+string float ,
+    // packet A { u8 x, }
+    repeat
+// c
+//	t
+Z9_ `tab	here`
+    , f32
+A @calculatedFrom(
+""CRC32"") ,	} , match
+BodyLength// " ++ [27880; 37322]%N ++ runes_of_ascii "
+as // `tick` ""quote"" 'q'
+int {1 :msg_type  , """ ++ [128512]%N ++ runes_of_ascii """ // @lengthOf(
+:
+falsey
+    // a // b
+    ,
+// " ++ [128512]%N ++ runes_of_ascii " emoji
+/// triple
+""// no comment""/// triple
+:x_y_z // @lengthOf(
+} , repeat // @lengthOf(
+i32 rootA `doc` ,  }packet asx
+{ }options// `tick` ""quote"" 'q'
+{ T
+=	""a	b"" }
+")).
+Eval vm_compute in ("<<<M160>>>" ++ check (runes_of_ascii "root packet o
+    { }	packet T{ zchar[ 4294967296
+]asx `say ""hi""` ,} MetaData f32a{f64 MetaDataX  `say ""hi""`
+    // packet A { u8 x, }
+    ,x_y_z
+    rootA`doc`
+, //	t
+u32
+repeatCount
+    /// triple
+    ,
+string T
+, u8x u`doc` ,} options {x_y_z
+    = 0	} // packet A { u8 x, }
+root packet// c
+MetaDataX { @calculatedFrom( ""abc""
+) @calculatedFrom(
+    """ ++ [128512]%N ++ runes_of_ascii """ ) @tag( 3
+) charz@lengthOf(
+Packet )
+    `line1
+line2` ,	} /// triple")).
+Eval vm_compute in ("<<<M4325>>>" ++ check (runes_of_ascii "packet Frame {
+    u8 HK,
+    u8 BK,
+    u8 TK,
+    match HK as Hdr {
+        1 : HdrA,
+        2 : HdrB,
+    },
+    match BK as Body {
+        1 : BodyA,
+        2 : BodyB,
+    },
+    match TK as Trl {
+        1 : TrlA,
+    },
+}
+
+packet HdrA {
+    u8 a,
+}
+
+packet HdrB {
+    u16 b,
+}
+
+packet BodyA {
+    u32 c,
+}
+
+packet BodyB {
+    u64 d,
+}
+
+packet TrlA {
+    u8 e,
+}
+
+root packet Msg {
+    Frame,
+    u8 x,
+}")).
+Eval vm_compute in ("<<<M3623>>>" ++ check (runes_of_ascii "// top
+root packet Frame {
+    // c3a
+    // c3b
+    u8 K,// c6a
+    // c6b
+    Logon first,
+    // c9
+    match K as Body {
+        // c14
+        1 : Logon,
+        // c18
+        2 : Logout,
+        // c22
+    },// c24
+}
+
+packet Logon {
+    // c28a
+    // c28b
+    string user,// c31a
+    // c31b
+}// c32a
+
+// c32b
+packet Logout {
+    // c35a
+    // c35b
+    u16 reason,
+    // c38
+}
+// c39")).
+Eval vm_compute in ("<<<M1171>>>" ++ check (runes_of_ascii "root packet
+string_ {
+zchar[1
+// a // b
+// `tick` ""quote"" 'q'
+] stringy //	t
+@lengthOf(charz  )
+    `u8 x,` // " ++ [27880; 37322]%N ++ runes_of_ascii "
+,
+repeat falsey {i8 u128
+    @lengthOf(
+    u128
+//	t
+// packet A { u8 x, }
+) `line1
+line2` ,
+    float@calculatedFrom( ""a	b"" )
+// a // b
+//
+,chars
+,
+    char[
+0] Header ,},	i8i8 `// not a comment` , //
+} packet T
+    // a // b
+    { repeat //	t
+lengthOf
+,}
 ")).
 Eval vm_compute in ("<<<M260>>>" ++ check (runes_of_ascii "// " ++ [27880; 37322]%N ++ runes_of_ascii "
 packet tag { repeat i64_
@@ -1603,194 +1681,228 @@ root packet uint8x
 ]
 T,
     } //	t")).
-Eval vm_compute in ("<<<M4111>>>" ++ check (runes_of_ascii "packet len {
-    repeat crc,
-    zchar[7] roots `" ++ [233]%N ++ runes_of_ascii "`,
-    u {
-        string_ x_y_z,
-    },
-}
-
-root packet len {
-    falsey `a\`,
-    @rightPad(' ')
-    @rightPad()
-    @tag(007)
-    repeat float {
-        msg_type `" ++ [28040; 24687; 31867; 22411]%N ++ runes_of_ascii "`,
-        int8 i8i8 `say ""hi""`,
-        match u128 as crc {
-            007 : tag,
-        },
-        char[] As `it's`,
-    },
-}")).
-Eval vm_compute in ("<<<M285>>>" ++ check (runes_of_ascii "
-MetaData o// a // b
-{ u32 string_, char[]a1
+Eval vm_compute in ("<<<M1191>>>" ++ check (runes_of_ascii "
+options
+    { body // " ++ [27880; 37322]%N ++ runes_of_ascii "
+=
+0123456789} packet	tag{ o @lengthOf( packetx ) `" ++ [28040; 24687; 31867; 22411]%N ++ runes_of_ascii "` , repeat options1
+{ float64
+o `doc`, } , } root packet float {
+    // trailing space 
+    @calculatedFrom(
+    ""a	b"") //	t
+float32 BodyLength // " ++ [128512]%N ++ runes_of_ascii " emoji
 `crlf
-line` , int8 options1 ,
-} packet
-    Foo{ @lengthOf( matchKey )f32 f32a ,
-@tag(0 ) // @lengthOf(
-match MetaDataX as trueish { //	t
-255 : T ,	4294967296 : pack
-    // a // b
-    ,	3 :falsey ,
-""1"" :uint8x ,7
-    : u128 4294967296 :
-    // " ++ [27880; 37322]%N ++ runes_of_ascii "
-    MetaDataX
-, } , i32 //
-roots
-, }")).
-Eval vm_compute in ("<<<M4484>>>" ++ check (runes_of_ascii "options {
-    x_y_z = ""x y"";
+line`
+    ,  repeat // " ++ [128512]%N ++ runes_of_ascii " emoji
+f32a
+Header
+`say ""hi""` ,int8 falsey// `tick` ""quote"" 'q'
+`{ , }`, }
+")).
+Eval vm_compute in ("<<<M142>>>" ++ check (runes_of_ascii "options { i8i8  =
+    int64 ; charz = ""// no comment""; repeatCount ="""" ; f32a = 0 stringy ='\x00' }
+    // packet A { u8 x, }
+    options
+    {
+Logon = 255
 }
-
-// " ++ [27880; 37322]%N ++ runes_of_ascii "
-packet int {
-    @calculatedFrom(""\" ++ [233]%N ++ runes_of_ascii """)
-    match MetaDataX as o {
-        // c
-        4294967296 : o,
-    },
-}
-
-MetaData asx {
-    As u8x `// not a comment`,
-    char[] string_ `doc`,
-    i64_ Z9_,
-    i16 leftPad `it's`,
-    u16 BodyLength `// not a comment`,
-    lengthOf len,
-}")).
-Eval vm_compute in ("<<<M4291>>>" ++ check (runes_of_ascii "packet crc // " ++ [27880; 37322]%N ++ runes_of_ascii "
-{ zchar[ 
-0123456789 ]
-
-    A
-
-    `say ""hi""`, 
-repeat
+    packet Header // c
+{} MetaData
+lengthOf{
+    // `tick` ""quote"" 'q'
+    }
+options {stringy  =false ; options1
+= true ; asx=3
+/// triple
+/// triple
+roots =
+'\x00' }
+")).
+Eval vm_compute in ("<<<M718>>>" ++ check (runes_of_ascii "packet
+metadata {
+    char[
+    0 ] Z9_
+`line1
+line2` , }
+    root packet
+chars {
+/// triple
+// @lengthOf(
+As { zchar[ 3 ] BodyLength @calculatedFrom( ""it's"") `line1
+line2` ,  }  ,
+} packet o {
+    @rightPad
+// trailing space 
+// trailing space 
+( '\x00' )
+    string
+f32a@calculatedFrom( ""it's"" ) `// not a comment` ,}")).
+Eval vm_compute in ("<<<M3335>>>" ++ check (runes_of_ascii "// top
+packet
+    // c0
+calculatedFrom
+    // c1
+{
+    // c2
+@tag(
+    // c3
+4294967296
+    // c4
+)
+    // c5
+u
+    // c6
+msg_type
+    // c7
+,
+    // c8
 char[
-255
-	]u,zchar
-	`// not a comment` 	 //
-		,  }
-    packet
-	uint8x	{ int16
-Packet
+    // c9
+3
+    // c10
+]
+    // c11
+crc
+    // c12
+@lengthOf(
+    // c13
+len
+    // c14
+)
+    // c15
+`u8 x,`
+    // c16
+,
+    // c17
+}
+    // c18
+")).
+Eval vm_compute in ("<<<M1565>>>" ++ check (runes_of_ascii "root packet Foo // " ++ [128512]%N ++ runes_of_ascii " emoji
+{ } options {
+    // a // b
+    tag // `tick` ""quote"" 'q'
+= //	t
+""""
+    ; u8x = zchar[0  ] }
+MetaData
+    int {zchar[ 10]
+lengthOf	`` , i64 u8x`// not a comment` ,MetaDataX pack pack// `tick` ""quote"" 'q'
+`crlf
+line`
+, Logon charz `crlf
+line`
+    ,
+    // a // b
+    }
+")).
+Eval vm_compute in ("<<<M1430>>>" ++ check (runes_of_ascii "root packet Foo // " ++ [128512]%N ++ runes_of_ascii " emoji
+{ } } options {
+    // a // b
+    tag // `tick` ""quote"" 'q'
+= //	t
+""""
+    ; u8x = zchar[0  ] }
+MetaData
+    int {zchar[ 10]
+lengthOf	`` , i64 u8x`// not a comment` ,MetaDataX pack// `tick` ""quote"" 'q'
+`crlf
+line`
+, Logon charz `crlf
+line`
+    ,
+    // a // b
+    }
+")).
+Eval vm_compute in ("<<<M1617>>>" ++ check (runes_of_ascii "root packet Foo // " ++ [128512]%N ++ runes_of_ascii " emoji
+{ } options {
+    // a // b
+    tag // `tick` ""quote"" 'q'
+= //	t
+""""
+    ; u8x = zchar[0  ] }
+MetaData
+    int {zchar[ 10]
+lengthOf	`` , i64 u8x`// not a comment` ,MetaDataX pack// `tick` ""quote"" 'q'
+`crlf
+line`
+, Logon charz `crlf
+" ++ [8232]%N ++ runes_of_ascii "line`
+    ,
+    // a // b
+    }
+")).
+Eval vm_compute in ("<<<M1541>>>" ++ check (runes_of_ascii "root packet Foo // " ++ [128512]%N ++ runes_of_ascii " emoji
+{ } options {
+    // a // b
+    tag // `tick` ""quote"" 'q'
+= //	t
+""""
+    ; u8x = zchar[0  ] }
+MetaData
+    int {zchar[ 10]
+lengthOf	`` , u8x i64`// not a comment` ,MetaDataX pack// `tick` ""quote"" 'q'
+`crlf
+line`
+, Logon charz `crlf
+line`
+    ,
+    // a // b
+    }
+")).
+Eval vm_compute in ("<<<M1574>>>" ++ check (runes_of_ascii "root packet Foo // " ++ [128512]%N ++ runes_of_ascii " emoji
+{ } options {
+    // a // b
+    tag // `tick` ""quote"" 'q'
+= //	t
+""""
+    ; u8x = zchar[0  ] }
+MetaData
+    int {zchar[ 10]
+lengthOf	`` , i64 u8x`// not a comment` ,MetaDataX pack// `tick` ""quote"" 'q'
+`crlf
+line`
+ Logon charz `crlf
+line`
+    ,
+    // a // b
+    }
+")).
+Eval vm_compute in ("<<<M3491>>>" ++ check (runes_of_ascii "packet 
+MDSnapshotZZ
+{
+	u8 a , 
+}  packet OrderACK {
+    u16
 
+    b
+
+    , }
+
+packet
+HTTPServerInfo{  string s  , 
+}	root 
+packet
+FIXMsg { u8	KType
+
+    ,  MDSnapshotZZ,repeat
+
+OrderACK
+,	match 
+KType  as Body {
+	1 : HTTPServerInfo
 ,
 
-repeat uint8x
+    2
+	:
 
-    { asx
-	lengthOf
+    OrderACK  ,
+	}
 
-, // @lengthOf(
-
-  char[
-
-    0123456789 ]// packet A { u8 x, }
-  asx`line1
-line2`
-	,
-    }
-,}
-")).
-Eval vm_compute in ("<<<M1475>>>" ++ check (runes_of_ascii "root packet Foo // " ++ [128512]%N ++ runes_of_ascii " emoji
-{ } options {
-    // a // b
-    tag // `tick` ""quote"" 'q'
-= //	t
-""""
-    ; u8x = zchar[ zchar[0  ] }
-MetaData
-    int {zchar[ 10]
-lengthOf	`` , i64 u8x`// not a comment` ,MetaDataX pack// `tick` ""quote"" 'q'
-`crlf
-line`
-, Logon charz `crlf
-line`
     ,
-    // a // b
-    }
+}
 ")).
-Eval vm_compute in ("<<<M1515>>>" ++ check (runes_of_ascii "root packet Foo // " ++ [128512]%N ++ runes_of_ascii " emoji
-{ } options {
-    // a // b
-    tag // `tick` ""quote"" 'q'
-= //	t
-""""
-    ; u8x = zchar[0  ] }
-MetaData
-    int {zchar[ 10 10]
-lengthOf	`` , i64 u8x`// not a comment` ,MetaDataX pack// `tick` ""quote"" 'q'
-`crlf
-line`
-, Logon charz `crlf
-line`
-    ,
-    // a // b
-    }
-")).
-Eval vm_compute in ("<<<M1616>>>" ++ check (runes_of_ascii "root packet Foo // " ++ [128512]%N ++ runes_of_ascii " emoji
-{ } options {
-    // a // b
-    tag // `tick` ""quote"" 'q'
-= //	t
-""""
-    ; u8x = zchar[0  ] }
-MetaData
-    int {zchar[ 10]
-lengthOf	`` , i64 u8x`// not a comment` ,MetaDataX % pack// `tick` ""quote"" 'q'
-`crlf
-line`
-, Logon charz `crlf
-line`
-    ,
-    // a // b
-    }
-")).
-Eval vm_compute in ("<<<M1486>>>" ++ check (runes_of_ascii "root packet Foo // " ++ [128512]%N ++ runes_of_ascii " emoji
-{ } options {
-    // a // b
-    tag // `tick` ""quote"" 'q'
-= //	t
-""""
-    ; u8x = zchar[0  } ]
-MetaData
-    int {zchar[ 10]
-lengthOf	`` , i64 u8x`// not a comment` ,MetaDataX pack// `tick` ""quote"" 'q'
-`crlf
-line`
-, Logon charz `crlf
-line`
-    ,
-    // a // b
-    }
-")).
-Eval vm_compute in ("<<<M1459>>>" ++ check (runes_of_ascii "root packet Foo // " ++ [128512]%N ++ runes_of_ascii " emoji
-{ } options {
-    // a // b
-    tag // `tick` ""quote"" 'q'
-= //	t
-""""
-     u8x = zchar[0  ] }
-MetaData
-    int {zchar[ 10]
-lengthOf	`` , i64 u8x`// not a comment` ,MetaDataX pack// `tick` ""quote"" 'q'
-`crlf
-line`
-, Logon charz `crlf
-line`
-    ,
-    // a // b
-    }
-")).
-Eval vm_compute in ("<<<M1572>>>" ++ check (runes_of_ascii "root packet Foo // " ++ [128512]%N ++ runes_of_ascii " emoji
+Eval vm_compute in ("<<<M1569>>>" ++ check (runes_of_ascii "root packet Foo // " ++ [128512]%N ++ runes_of_ascii " emoji
 { } options {
     // a // b
     tag // `tick` ""quote"" 'q'
@@ -1800,656 +1912,752 @@ Eval vm_compute in ("<<<M1572>>>" ++ check (runes_of_ascii "root packet Foo // "
 MetaData
     int {zchar[ 10]
 lengthOf	`` , i64 u8x`// not a comment` ,MetaDataX pack// `tick` ""quote"" 'q'
-@rightPad
+
 , Logon charz `crlf
 line`
     ,
     // a // b
     }
 ")).
-Eval vm_compute in ("<<<M341>>>" ++ check (runes_of_ascii "options { leftPad
-    = 1
-    ;	leftPad= char[]
+Eval vm_compute in ("<<<M883>>>" ++ check (runes_of_ascii "
+packet repeatCount{	@calculatedFrom( ""\n"" )
+match BodyLength as matchKey
+// trailing space 
+// trailing space 
+{ 0123456789 : /// triple
+msg_type 4294967296 :f32a,	[""" ++ [233]%N ++ runes_of_ascii "t" ++ [233]%N ++ runes_of_ascii """, ""// no comment""
+,3 ] : Foo ,
+    65535
+:zchar	,
+// a // b
+//
+4294967296 : packetx	,
+}
+    ,	}")).
+Eval vm_compute in ("<<<M302>>>" ++ check (runes_of_ascii "packet calculatedFrom {
+    @lengthOf( zchar )	char[]// `tick` ""quote"" 'q'
+chars
+    `line1
+line2` ,string
+    Logon @calculatedFrom( ""it's""  ), matchKey `say ""hi""`, @lengthOf( T
     // c
-    MetaDataX = false// @lengthOf(
-u =
-'\x00'roots =10
-} packet
-A { char[
-    // packet A { u8 x, }
-    10] o ,  match  a1 as T {
-// @lengthOf(
-//	t
-65535 :	Z9_ 0 : _x ,} ,	}
-    packet
-    Foo {repeat i64_ `two words`//
-, }
-")).
-Eval vm_compute in ("<<<M3896>>>" ++ check (runes_of_ascii "MetaData chars {
-    char[] As `a\`,
+    )
+x_y_z @calculatedFrom(
+    ""it's"" ) `// not a comment`	,
+    }")).
+Eval vm_compute in ("<<<M3936>>>" ++ check (runes_of_ascii "
+packet
+P1{
+u8 
+a 
+,
+} packet P2
+
+    {P1
+	, }
+packet	P3 {
+
+P2 ,
+    P1,	} packet P4{ repeat
+P3
+
+,P2 ,
+    }root
+
+packet P5
+
+    {
+
+    P4
+
+,	P3
+,
+
+P1
+
+,
+u8 K
+
+    ,match K  as
+    Body
+{ 
+4 :
+
+P4  , 3
+
+:P3 ,
+	2
+:
+
+P2	,
+1 :  P1	,
+}
+,
+}")).
+Eval vm_compute in ("<<<M3589>>>" ++ check (runes_of_ascii "options {
 }
 
 packet repeatCount {
-    repeat charz {
-        char[00] Pad,
-    },
-    @calculatedFrom(""// no comment"")
-    char[] matchKey `doc`,
-    u64 T @lengthOf(int),
+    Foo T,
+    _x `// not a comment`,
+    @calculatedFrom(""x y"")
+    repeat float32 uint8x `doc`,
+    char msg_type @lengthOf(stringy),
+    @lengthOf(int)
+    repeat float `two words`,
 }
 
-packet Header {
-    @calculatedFrom(""a\""b"")
-    char[65535] falsey,
+MetaData u8x {
 }")).
-Eval vm_compute in ("<<<M885>>>" ++ check (runes_of_ascii "packet//	t
-u8x{
-// `tick` ""quote"" 'q'
-//x
-Pad @lengthOf(
-    _x
-// " ++ [27880; 37322]%N ++ runes_of_ascii "
-/// triple
-)
+Eval vm_compute in ("<<<M4021>>>" ++ check (runes_of_ascii "  MetaData
+tag
+
+    {
+	i8
+
+    body ,char[]
+
+tag ,
+int16
+
+metadata ,
+	// c
+
+	f64 body
+	`" ++ [28040; 24687; 31867; 22411]%N ++ runes_of_ascii "` 
+// a // b
+
+  /// triple
+  ,
+char[ // `tick` ""quote"" 'q'
+      42 ]	rootA
+
+, // a // b
+T
+metadata `say ""hi""`
+
+    ,
+    } ")).
+Eval vm_compute in ("<<<M2261>>>" ++ check (runes_of_ascii "MetaData Packet { }packet	asx  { @lengthOf( asx) falsey falsey`crlf
+line`
 ,
-    //	t
     }
-// `tick` ""quote"" 'q'
-// c
-packet body
-    { @rightPad ( '\x00'// `tick` ""quote"" 'q'
-) asx`it's`, }packet u128 { } packet stringy { @rightPad
-    ( ) chars, }
+    packet x	{uint32// @lengthOf(
+rootA	,u32 options1 `say ""hi""` , @tag( 7
+    )// packet A { u8 x, }
+msg_type @lengthOf(
+stringy	)	, }
+
 ")).
-Eval vm_compute in ("<<<M1317>>>" ++ check (runes_of_ascii "options
-{
-uint8x =""{,}""
-// `tick` ""quote"" 'q'
-// " ++ [128512]%N ++ runes_of_ascii " emoji
-; } packet asx { match f32a
-    as
-    msg_type {
-    ""{,}"":  int [ """ ++ [233]%N ++ runes_of_ascii "t" ++ [233]%N ++ runes_of_ascii """
-,	""a\\"" ,3 ,
-    """ ++ [128512]%N ++ runes_of_ascii """ , 1  , ""a\""b"" , """ ++ [128512]%N ++ runes_of_ascii """ ] : repeatCount ,}
-, string Z9_
-`{ , }`,
-u128 {
-char[] Packet
-    , } ,//	t
-}")).
-Eval vm_compute in ("<<<M3956>>>" ++ check (runes_of_ascii "MetaData
+Eval vm_compute in ("<<<M2221>>>" ++ check (runes_of_ascii "MetaData Packet { { }packet	asx  { @lengthOf( asx) falsey`crlf
+line`
+,
+    }
+    packet x	{uint32// @lengthOf(
+rootA	,u32 options1 `say ""hi""` , @tag( 7
+    )// packet A { u8 x, }
+msg_type @lengthOf(
+stringy	)	, }
 
-Packet
+")).
+Eval vm_compute in ("<<<M2387>>>" ++ check (runes_of_ascii "MetaData Packet { }packet	asx  { @lengthOf( asx) falsey`crlf
+line`
+,
+    }
+    packet x	{uint32// @lengthOf(
+rootA	,u32 options1 `say ""hi""` , ?@tag( 7
+    )// packet A { u8 x, }
+msg_type @lengthOf(
+stringy	)	, }
 
-{
-}  packet	asx
-{@lengthOf(
+")).
+Eval vm_compute in ("<<<M2342>>>" ++ check (runes_of_ascii "MetaData Packet { }packet	asx  { @lengthOf( asx) falsey`crlf
+line`
+,
+    }
+    packet x	{uint32// @lengthOf(
+rootA	,u32 options1 `say ""hi""` , @tag( 7
+    msg_type// packet A { u8 x, }
+) @lengthOf(
+stringy	)	, }
+
+")).
+Eval vm_compute in ("<<<M2253>>>" ++ check (runes_of_ascii "MetaData Packet { }packet	asx  { @lengthOf( =) falsey`crlf
+line`
+,
+    }
+    packet x	{uint32// @lengthOf(
+rootA	,u32 options1 `say ""hi""` , @tag( 7
+    )// packet A { u8 x, }
+msg_type @lengthOf(
+stringy	)	, }
+
+")).
+Eval vm_compute in ("<<<M4267>>>" ++ check (runes_of_ascii "
+
+  MetaData
 asx
-	) falsey  `crlf
-line` , }packet x
-{uint32 	 // @lengthOf(
+{  /// triple
+  uint16//
 
-rootA	,
-
-    u32 options1 `say " ++ [127]%N ++ runes_of_ascii """hi""`
-    ,
-    @tag( 
-7
-    ) 	 // packet A { u8 x, }
-  msg_type  @lengthOf(	stringy	)
-, }")).
-Eval vm_compute in ("<<<M3885>>>" ++ check (runes_of_ascii "MetaData Packet {
-}
-
-packet asx {
-    @lengthOf(asx)
-    falsey `crlf
-        line`,
-}
-
-packet x {
-    // @lengthOf(
-    rootA,
-    u32 options1 `say ""hi""`,
-    @tag(7)
-    // packet A { u8 x, }
-    msg_type @lengthOf(stringy),
-}")).
-Eval vm_compute in ("<<<M2356>>>" ++ check (runes_of_ascii "MetaData Packet { }packet	asx  { @lengthOf( asx) falsey`crlf
-line`
+leftPad
+	,char[
+	4294967296] matchKey `
+`	, 
+// @lengthOf(
+		/// triple
+	u32 
+options1
 ,
-    }
-    packet x	{uint32// @lengthOf(
-rootA	,u32 options1 `say ""hi""` , @tag( 7
-    )// packet A { u8 x, }
-msg_type @lengthOf(
-stringy stringy	)	, }
+	zchar[ 	 // @lengthOf(
 
-")).
-Eval vm_compute in ("<<<M2236>>>" ++ check (runes_of_ascii "MetaData Packet { }packet	asx asx  { @lengthOf( asx) falsey`crlf
-line`
-,
-    }
-    packet x	{uint32// @lengthOf(
-rootA	,u32 options1 `say ""hi""` , @tag( 7
-    )// packet A { u8 x, }
-msg_type @lengthOf(
-stringy	)	, }
+	0	]
+	falsey
+`it's`  ,char
+leftPad`u8 x,` ,
 
-")).
-Eval vm_compute in ("<<<M4473>>>" ++ check (runes_of_ascii "root packet Foo {
 }
-
-options {
-    // a // b
-    tag = """";
-    u8x = zchar[0]
-}
-
-MetaData int {
-    zchar[10] lengthOf ``,
-    i64 u8x,
-    MetaDataX pack `crlf
-        line`,
-    Logon charz `crlf
-        line`,
-}")).
-Eval vm_compute in ("<<<M2272>>>" ++ check (runes_of_ascii "MetaData Packet { }packet	asx  { @lengthOf( asx) falsey`crlf
-line`
-}
-    ,
-    packet x	{uint32// @lengthOf(
-rootA	,u32 options1 `say ""hi""` , @tag( 7
-    )// packet A { u8 x, }
-msg_type @lengthOf(
-stringy	)	, }
-
 ")).
-Eval vm_compute in ("<<<M2290>>>" ++ check (runes_of_ascii "MetaData Packet { }packet	asx  { @lengthOf( asx) falsey`crlf
-line`
-,
-    }
-    packet x	uint32// @lengthOf(
-rootA	,u32 options1 `say ""hi""` , @tag( 7
-    )// packet A { u8 x, }
-msg_type @lengthOf(
-stringy	)	, }
+Eval vm_compute in ("<<<M4353>>>" ++ check (runes_of_ascii "  packet
+calculatedFrom
+	{
+	}
+	MetaData
+charz
 
-")).
-Eval vm_compute in ("<<<M1259>>>" ++ check (runes_of_ascii "packet
-x_y_z//x
-{@tag(	0123456789
-    )match // " ++ [27880; 37322]%N ++ runes_of_ascii "
-T	as	roots
-{ 255 : asx ,[
-    1
-    //x
-    ,
-    3 , ""`tick`"" ] : Header 3
-    :
-    pack// " ++ [128512]%N ++ runes_of_ascii " emoji
-},u64  a1/// triple
-`tab	here`
-,
-_x options1`{ , }` ,
-}")).
-Eval vm_compute in ("<<<M2323>>>" ++ check (runes_of_ascii "MetaData Packet { }packet	asx  { @lengthOf( asx) falsey`crlf
-line`
-,
-    }
-    packet x	{uint32// @lengthOf(
-rootA	,u32 options1 { , @tag( 7
-    )// packet A { u8 x, }
-msg_type @lengthOf(
-stringy	)	, }
+{
+Z9_ 
 
-")).
-Eval vm_compute in ("<<<M4454>>>" ++ check (runes_of_ascii "MetaData x {
-    Foo Header,
-    char[0123456789] len,
-    int64 i64_,
-    char[42] i8i8,
-    i16 pack,
-    int64 u8x `it's`,
-}
-
-packet pack {
-    @calculatedFrom(""// no comment"")
-    len matchKey,
-}")).
-Eval vm_compute in ("<<<M1376>>>" ++ check (runes_of_ascii "packet _x
-{ repeat packetx {match Pad
-    as
-// c
+// @lengthOf(
+	Pad	// a // b
+  	,	uint64 
+	// packet A { u8 x, }
 // a // b
-roots {""// no comment"" :
-    tag
-,[ """ ++ [233]%N ++ runes_of_ascii "t" ++ [233]%N ++ runes_of_ascii """, ""\" ++ [233]%N ++ runes_of_ascii """
-    ]:	As	,3	:  options1 ,3 : charz ,
-    } , //
-} , repeat
-    Foo`line1
-line2`, }")).
-Eval vm_compute in ("<<<M932>>>" ++ check (runes_of_ascii "packet //x
-roots
-    { @rightPad(
-    '\x00'// a // b
-)
-o Z9_ ,
-@tag( 00 )  @tag(1
-    // trailing space 
-    ) @lengthOf( MetaDataX ) Z9_@calculatedFrom( // @lengthOf(
-""x y"" )	,}
+	u
+`" ++ [233]%N ++ runes_of_ascii "`  ,	char[
+00	]
+	Z9_, }	// `tick` ""quote"" 'q'
+	  options {}
 ")).
-Eval vm_compute in ("<<<M1203>>>" ++ check (runes_of_ascii "packet i8i8
-    { int64	BodyLength	@calculatedFrom( ""packet"")	,  @leftPad()
-    zchar[ /// triple
-1 ] calculatedFrom ,
-    repeat
-x_y_z , //	t
-T A
-, }MetaData
-charz {
-} // " ++ [27880; 37322]%N)).
-Eval vm_compute in ("<<<M1074>>>" ++ check (runes_of_ascii "packet
-f32a {
-    }
-    options { metadata = ' ' ; }
-options { }packet a1
-{ Foo { // " ++ [128512]%N ++ runes_of_ascii " emoji
-repeat zchar[00	]
-_x
-,
-}  ,
-    }
-MetaData Pad  {
-u16 u `tab	here`,	}")).
-Eval vm_compute in ("<<<M1249>>>" ++ check (runes_of_ascii "  options {  falsey =	u8
-;	metadata = ' ' leftPad = int64 ; lengthOf
+Eval vm_compute in ("<<<M1165>>>" ++ check (runes_of_ascii "options
+{
+roots = u8 f32a =
+'\x00'	BodyLength
 =
-    255 string_= // packet A { u8 x, }
-""a\""b"" ; } MetaData //
-uint8x	{ u32
-zchar , //x
-}")).
-Eval vm_compute in ("<<<M3732>>>" ++ check (runes_of_ascii "// @lengthOf(
-MetaData u {
-    char[] float,
-    u8 leftPad `
-        `,
-    metadata string_,
-    char[] Header,
-    zchar[0123456789] a1 `
-        `,
-}")).
-Eval vm_compute in ("<<<M1097>>>" ++ check (runes_of_ascii "packet	calculatedFrom
-{
-@lengthOf(body)
-    @tag(0123456789)
-@calculatedFrom(
-// trailing space 
-// a // b
-""" ++ [128512]%N ++ runes_of_ascii """ ) options1 `// not a comment` , }
+    """ ++ [28040; 24687]%N ++ runes_of_ascii """ }MetaData// a // b
+packetx{ i32  options1,	zchar[ 1]
+u8x // @lengthOf(
+`doc` ,
+    zchar[ 7 ]	matchKey // " ++ [27880; 37322]%N ++ runes_of_ascii "
+, int8 As `crlf
+line`
+, }")).
+Eval vm_compute in ("<<<M1201>>>" ++ check (runes_of_ascii "root packet BodyLength
+    { lengthOf { char[/// triple
+42  ]
+Foo `` // trailing space 
+, u64 Foo @calculatedFrom(""x y"" //
+) ,}  ,rootA
+@lengthOf(Packet
+)
+    , }
+options
+{ Pad = 00
+}
 ")).
-Eval vm_compute in ("<<<M4408>>>" ++ check (runes_of_ascii "
-
-  root  packet 
-
-    // c1
-	  P
-
+Eval vm_compute in ("<<<M4415>>>" ++ check (runes_of_ascii "packet
+    x
 {
-    // c3
-    	repeat
+match
+u128
+as
+stringy	// " ++ [128512]%N ++ runes_of_ascii " emoji
+    {	// a // b
 
-string  ss 
-,  // c7
+[
 
-repeat 	 // c8
-u16 // c9
-      ns 
-      // c10
-	,}// c12")).
-Eval vm_compute in ("<<<M200>>>" ++ check (runes_of_ascii "
-root packet	f32a {char[]x_y_z `doc` ,@calculatedFrom(	""CRC32""
-) A tag `u8 x,`
+    """ ++ [28040; 24687]%N ++ runes_of_ascii """
+	    //	t
+  ,
+	42
 ,
-int , } options { Packet =""1""
-    ; } options {  } 	 ")).
-Eval vm_compute in ("<<<M4186>>>" ++ check (runes_of_ascii "root packet pack {
-    @calculatedFrom(""it's"")
-    //
-    zchar[0123456789] packetx @calculatedFrom(""CRC32""),
-    char[] BodyLength,
-}")).
-Eval vm_compute in ("<<<M3707>>>" ++ check (runes_of_ascii "packet A {
+	""// no comment""	// a // b
+    ,	""1""
+	]
+    : MetaDataX
+
+,""it's"":o 
+,  }  , } ")).
+Eval vm_compute in ("<<<M3877>>>" ++ check (runes_of_ascii "packet A {
     match k as n {
         [
-            007, 66, ""a"", ""bb"", ""d"",
-            ""e""
+            ""a"", ""bb"", ""c c"", ""d"", ""e"",
+            ""f"", ""g"", ""h"", ""i"", ""j"",
+            ""k""
         ] : B,
         2 : C,
     },
 }")).
-Eval vm_compute in ("<<<M1631>>>" ++ check (runes_of_ascii "root rootA /// triple
-packet {	i32
-MetaDataX@calculatedFrom( ""CRC32"" ) `line1
-line2` , } MetaData BodyLength {
-u8
-rootA, } // c")).
-Eval vm_compute in ("<<<M1736>>>" ++ check (runes_of_ascii "root packet /// triple
-" ++ [252]%N ++ runes_of_ascii "ber {	i32
-MetaDataX@calculatedFrom( ""CRC32"" ) `line1
-line2` , } MetaData BodyLength {
-u8
-rootA, } // c")).
-Eval vm_compute in ("<<<M3630>>>" ++ check (runes_of_ascii "packet  o	{ @tag( 
-42 )repeat
-x
-{
+Eval vm_compute in ("<<<M4188>>>" ++ check (runes_of_ascii "packet A {
+    match k as n {
+        [
+            1, ""bb"", 007, ""d"", 5,
+            ""f"", 7, ""h"", 9, ""j"",
+            11, ""l""
+        ] : B,
+        2 : C,
+    },
+}")).
+Eval vm_compute in ("<<<M3447>>>" ++ check (runes_of_ascii "options
+    { LittleEndian =	true
+	;
+} 
+packet  B{ u8
 
-    char[
+a
+    ,  string s
 
-    0123456789
+,
 
-]
-    i64_
+    } root
 
-    ,  }	,
-        // c
-  }
-options { 
+packet	P	{
+
+u16	L  @lengthOf( B
+)
+,
+
+    B
+	, u8
+    t  ,
+	}
+")).
+Eval vm_compute in ("<<<M2344>>>" ++ check (runes_of_ascii "MetaData Packet { }packet	asx  { @lengthOf( asx) falsey`crlf
+line`
+,
+    }
+    packet x	{uint32// @lengthOf(
+rootA	,u32 options1 `say ""hi""` , @tag( 7")).
+Eval vm_compute in ("<<<M1208>>>" ++ check (runes_of_ascii "
+packet asx{ @tag( 10 )  u64
+_x @calculatedFrom( """ ++ [28040; 24687]%N ++ runes_of_ascii """ ) ,
+    } options
+{ i64_ = true /// triple
+packetx = u16 ; } options {
+msg_type =
+""{,}"" }")).
+Eval vm_compute in ("<<<M3655>>>" ++ check (runes_of_ascii "root packet rootA {
+    i32 MetaDataX @calculatedFrom(""CRC32"") `line1
+        lin@lengthOfe2`,
 }
 
+MetaData BodyLength {
+    u8 rootA,
+}// c")).
+Eval vm_compute in ("<<<M845>>>" ++ check (runes_of_ascii "root
+    packet
+charz
+{ @calculatedFrom( ""a	b""
+) repeat f32a options1
+`u8 x,` ,} options{ // " ++ [27880; 37322]%N ++ runes_of_ascii "
+zchar=
+    char[3 ] ;
+    }
+/// triple
 ")).
-Eval vm_compute in ("<<<M1629>>>" ++ check (runes_of_ascii "root  /// triple
+Eval vm_compute in ("<<<M3713>>>" ++ check (runes_of_ascii "packet
+
+    Logon { @tag( 42  ) @rightPad 	 // c
+		(' '
+
+)
+
+@leftPad
+    ( 
+) repeat
+trueish
+
+    {
+string
+
+T
+
+    ,	} ,  }
+
+")).
+Eval vm_compute in ("<<<M3910>>>" ++ check (runes_of_ascii "packet A {
+    u16 len @lengthOf(body) `tab
+        	x`,
+    u32 crc @calculatedFrom(""CRC32"") `tab
+        	x`,
+    string body,
+}")).
+Eval vm_compute in ("<<<M1709>>>" ++ check (runes_of_ascii "root packet /// triple
 rootA {	i32
 MetaDataX@calculatedFrom( ""CRC32"" ) `line1
 line2` , } MetaData BodyLength {
 u8
+rootA} , // c")).
+Eval vm_compute in ("<<<M1636>>>" ++ check (runes_of_ascii "root packet /// triple
+as {	i32
+MetaDataX@calculatedFrom( ""CRC32"" ) `line1
+line2` , } MetaData BodyLength {
+u8
 rootA, } // c")).
-Eval vm_compute in ("<<<M3699>>>" ++ check (runes_of_ascii "
-packet
-    x { 	 //
-	  Header 
-, repeat float32  i8i8
-,
-	    // `tick` ""quote"" 'q'
-		// packet A { u8 x, }
-    	}
-
-")).
-Eval vm_compute in ("<<<M1843>>>" ++ check (runes_of_ascii "packet
-    Pad // a // b
-{ i8i8 @calculatedFrom( ""a	b"") `u8 x,` ,
-} options{ repeat// " ++ [128512]%N ++ runes_of_ascii " emoji
-= f64 i64_
-=//	t
-00 }
-")).
-Eval vm_compute in ("<<<M1847>>>" ++ check (runes_of_ascii "packet
+Eval vm_compute in ("<<<M1685>>>" ++ check (runes_of_ascii "root packet /// triple
+rootA {	i32
+MetaDataX@calculatedFrom( ""CRC32"" ) `line1
+line2` , } ' ' BodyLength {
+u8
+rootA, } // c")).
+Eval vm_compute in ("<<<M1863>>>" ++ check (runes_of_ascii "packet
     Pad // a // b
 { i8i8 @calculatedFrom( ""a	b"") `u8 x,` ,
 } options{ float// " ++ [128512]%N ++ runes_of_ascii " emoji
-f64 = i64_
+= f64 i64_
+uint8//	t
+00 }
+")).
+Eval vm_compute in ("<<<M1846>>>" ++ check (runes_of_ascii "packet
+    Pad // a // b
+{ i8i8 @calculatedFrom( ""a	b"") `u8 x,` ,
+} options{ float// " ++ [128512]%N ++ runes_of_ascii " emoji
+= = f64 i64_
 =//	t
 00 }
 ")).
-Eval vm_compute in ("<<<M624>>>" ++ check (runes_of_ascii "packet Packet { uint8 options1	`a\` ,@rightPad
-    (
-    '0') u16 // packet A { u8 x, }
-x_y_z
-    `crlf
-line` ,
+Eval vm_compute in ("<<<M4058>>>" ++ check (runes_of_ascii "  options{ 
+metadata =
+
+    // @lengthOf(
+  // @lengthOf(
+    ""a	b""  u
+=  0
+;// trailing space 
+    	i8i8
+	= 0 ;
+	}
+
+")).
+Eval vm_compute in ("<<<M3801>>>" ++ check (runes_of_ascii "  packet Logon
+	{ 
+  // c
+@tag(  42 )
+
+    @rightPad(' '
+)
+    @leftPad  ( 
+) 
+repeat trueish{
+string
+T
+,	}
+
+,
+
+} ")).
+Eval vm_compute in ("<<<M4033>>>" ++ check (runes_of_ascii "packet f32a {
+    int16 int,
+}
+
+MetaData f32a {
+    char i8i8,/// triple
+    string Pad,
+    zchar f32a,
+    x T,
+}")).
+Eval vm_compute in ("<<<M3187>>>" ++ check (runes_of_ascii "MetaData zchar // c1
+{ // c2a
+  // c2b
+zchar[ // c3a
+  // c3b
+3 ]
+    // c5
+Pad // c6
+, // c7a
+  // c7b
+} // c8
+")).
+Eval vm_compute in ("<<<M764>>>" ++ check (runes_of_ascii "// c
+root packet u128	{asx ,} packet body
+    { @lengthOf(
+    i8i8 ) crc @lengthOf(
+    Header)
+    , } // c")).
+Eval vm_compute in ("<<<M2993>>>" ++ check (runes_of_ascii "packet A {
+  match k as n {
+    [1, ""bb"", 007, ""d"", 5, ""f"", 7, ""h"", 9, ""j"", 11, ""l""] : B,
+    2 : C
+  },
+}")).
+Eval vm_compute in ("<<<M1186>>>" ++ check (runes_of_ascii "//x
+options { x_y_z
+= i16// " ++ [128512]%N ++ runes_of_ascii " emoji
+charz
+    // c
+    = ""a	b""
+    ;
+// @lengthOf(
+//
+len  =	' '
+    ;}")).
+Eval vm_compute in ("<<<M3364>>>" ++ check (runes_of_ascii "packet calculatedFrom { @tag( 4294967296 ) u msg_type , char[ 3 ] crc
+// c
+@lengthOf( len ) `u8 x,` , }")).
+Eval vm_compute in ("<<<M3492>>>" ++ check (runes_of_ascii "packet FooBar {
+    u8 a,
+}
+packet foo_bar {
+    u16 b,
+}
+root packet R {
+    FooBar,
+    foo_bar,
 }
 ")).
-Eval vm_compute in ("<<<M1028>>>" ++ check (runes_of_ascii "MetaData int	{i64_ calculatedFrom , As
-    //
-    a1 `it's` ,u64  string_`two words` , repeatCount//
-Pad
+Eval vm_compute in ("<<<M875>>>" ++ check (runes_of_ascii "
+root packet T {
+f32 pack // trailing space 
+@calculatedFrom( ""abc"" )
+`" ++ [28040; 24687; 31867; 22411]%N ++ runes_of_ascii "`
+    , /// triple
+}")).
+Eval vm_compute in ("<<<M635>>>" ++ check (runes_of_ascii "packet// trailing space 
+len
+{f32 MetaDataX @calculatedFrom(	""{,}"" )
 ,
+} // packet A { u8 x, }")).
+Eval vm_compute in ("<<<M3240>>>" ++ check (runes_of_ascii "packet Logon { @tag( 42 ) @rightPad ( ' ' ) @leftPad ( ) // c
+repeat trueish { string T , } , }")).
+Eval vm_compute in ("<<<M1717>>>" ++ check (runes_of_ascii "root packet /// triple
+rootA {	i32
+MetaDataX@calculatedFrom( ""CRC32"" ) `line1
+line2` , } Met")).
+Eval vm_compute in ("<<<M2955>>>" ++ check (runes_of_ascii "packet A {
+  match k as n {
+    [1, ""bb"", 007, ""d"", 5, ""f"", 7, ""h"", 9] : B
+    2 : C
+  },
+}")).
+Eval vm_compute in ("<<<M3429>>>" ++ check (runes_of_ascii "packet
+
+    Inner {  u8 a
+    , }root
+packet  P
+
+{repeat 
+Inner
+
+items
+    ,
+u8 x , } ")).
+Eval vm_compute in ("<<<M3267>>>" ++ check (runes_of_ascii "// top
+options
+    // c0
+{
+    // c1
+u8x
+    // c2
+=
+    // c3
+3
+    // c4
+}
+    // c5
+")).
+Eval vm_compute in ("<<<M1676>>>" ++ check (runes_of_ascii "root packet /// triple
+rootA {	i32
+MetaDataX@calculatedFrom( ""CRC32"" ) `line1
+line2`")).
+Eval vm_compute in ("<<<M2021>>>" ++ check (runes_of_ascii "root
+packet crc
+    { f32a @calculatedFrom( """ ++ [233]%N ++ runes_of_ascii "t" ++ [233]%N ++ runes_of_ascii """ )
+    `say ""hi""`, lengthOf `` ,  ")).
+Eval vm_compute in ("<<<M2917>>>" ++ check (runes_of_ascii "packet A {
+  match k as n {
+    [""a"", 22, ""c c"", 4, ""e"", 66] : B,
+    2 : C
+  },
+}")).
+Eval vm_compute in ("<<<M3307>>>" ++ check (runes_of_ascii "packet o { @tag( 42 ) repeat
+// c
+x { char[ 0123456789 ] i64_ , } , } options { }")).
+Eval vm_compute in ("<<<M231>>>" ++ check (runes_of_ascii "MetaData Z9_
+    { a1
+//
+/// triple
+Z9_
+    , zchar[ 10	] x
+    , } options { }
+")).
+Eval vm_compute in ("<<<M4281>>>" ++ check (runes_of_ascii "MetaData
+    charz
+
+{
+
+char[
+
+    7
+]
+body
+    `tab	here`// " ++ [27880; 37322]%N ++ runes_of_ascii "
+    ,
     }
 ")).
-Eval vm_compute in ("<<<M1223>>>" ++ check (runes_of_ascii "packet options1
-    {zchar[ 007
-]f32a
-    @lengthOf(
-    //
-    msg_type )
-// `tick` ""quote"" 'q'
-// " ++ [128512]%N ++ runes_of_ascii " emoji
-,}")).
-Eval vm_compute in ("<<<M1869>>>" ++ check (runes_of_ascii "packet
-    Pad // a // b
-{ i8i8 @calculatedFrom( ""a	b"") `u8 x,` ,
-} options{ float// " ++ [128512]%N ++ runes_of_ascii " emoji
-= f64 i64_
-=")).
-Eval vm_compute in ("<<<M3375>>>" ++ check (runes_of_ascii "packet calculatedFrom { @tag( 4294967296 ) u msg_type , char[ 3 ] crc @lengthOf( len ) `u8 x,` , } // c
+Eval vm_compute in ("<<<M2199>>>" ++ check (runes_of_ascii "root
+    // `tick` ""quote"" 'q'
+    packet As @lengthOf { trueish Packet , }
 ")).
-Eval vm_compute in ("<<<M3357>>>" ++ check (runes_of_ascii "packet calculatedFrom { @tag( 4294967296 ) u msg_type , char[ // c
-3 ] crc @lengthOf( len ) `u8 x,` , }")).
-Eval vm_compute in ("<<<M2953>>>" ++ check (runes_of_ascii "packet A {
-  match k as n {
-    [""a"", ""bb"", ""c c"", ""d"", ""e"", ""f"", ""g"", ""h"", ""i""] : B
-    2 : C
-  },
-}")).
-Eval vm_compute in ("<<<M4268>>>" ++ check (runes_of_ascii "
-
-  options {
-	LittleEndian	=
-
-    true;	} root
-packet
-    P 
-{ repeat
-char  cs,
-u8  x
-    , }
-")).
-Eval vm_compute in ("<<<M586>>>" ++ check (runes_of_ascii "options {charz=//	t
-""" ++ [28040; 24687]%N ++ runes_of_ascii """rootA= '0'//	t
-trueish=  ""// no comment""; }
-options { body
-=
-char[] }
-")).
-Eval vm_compute in ("<<<M3239>>>" ++ check (runes_of_ascii "packet Logon { @tag( 42 ) @rightPad ( ' ' ) @leftPad (
-// c
-) repeat trueish { string T , } , }")).
-Eval vm_compute in ("<<<M2971>>>" ++ check (runes_of_ascii "packet A {
-  match k as n {
-    [1, 22, ""c c"", 4, 5, ""f"", 7, 8, ""i"", 10] : B,
-    2 : C
-  },
-}")).
-Eval vm_compute in ("<<<M3759>>>" ++ check (runes_of_ascii "packet o {
-    @tag(42)
-    repeat x {
-        char[0123456789] i64_,
-    },
+Eval vm_compute in ("<<<M3780>>>" ++ check (runes_of_ascii "packet i8i8 {
 }
 
 options {
+    MetaDataX = ""it's""
+    asx = char[65535];
 }")).
-Eval vm_compute in ("<<<M1969>>>" ++ check (runes_of_ascii "root
-packet `" ++ [28040; 24687; 31867; 22411]%N ++ runes_of_ascii "`
-    { f32a @calculatedFrom( """ ++ [233]%N ++ runes_of_ascii "t" ++ [233]%N ++ runes_of_ascii """ )
-    `say ""hi""`, lengthOf `` ,  }")).
-Eval vm_compute in ("<<<M2031>>>" ++ check (runes_of_ascii "root
-packet crc
-    { f32a @calculatedFrom( """ ++ [233]%N ++ runes_of_ascii "t" ++ [233]%N ++ runes_of_ascii """ )
- $   `say ""hi""`, lengthOf `` ,  }")).
-Eval vm_compute in ("<<<M2018>>>" ++ check (runes_of_ascii "root
-packet crc
-    { f32a @calculatedFrom( """ ++ [233]%N ++ runes_of_ascii "t" ++ [233]%N ++ runes_of_ascii """ )
-    `say ""hi""`, lengthOf `` }  ,")).
-Eval vm_compute in ("<<<M3051>>>" ++ check (runes_of_ascii "packet A {
-    u32 crc @calculatedFrom(""x\
-y""),
-    @calculatedFrom(""x\
-y"") u8 y,
+Eval vm_compute in ("<<<M372>>>" ++ check (runes_of_ascii "
+packet Z9_ { } // a // b
+root
+    packet roots{
+    /// triple
+    }")).
+Eval vm_compute in ("<<<M3399>>>" ++ check (runes_of_ascii "MetaData _x { // c
+zchar[ 4294967296 ] lengthOf `// not a comment` , }")).
+Eval vm_compute in ("<<<M3766>>>" ++ check (runes_of_ascii "options {
+    tag = 42
+}
+
+root packet pack {
+    zchar[007] Packet,
 }")).
-Eval vm_compute in ("<<<M3298>>>" ++ check (runes_of_ascii "packet o { // c
-@tag( 42 ) repeat x { char[ 0123456789 ] i64_ , } , } options { }")).
-Eval vm_compute in ("<<<M3330>>>" ++ check (runes_of_ascii "packet o { @tag( 42 ) repeat x { char[ 0123456789 ] i64_ , } , } options { // c
-}")).
-Eval vm_compute in ("<<<M3001>>>" ++ check (runes_of_ascii "packet A { Inner { match k as n { [1,22,007,4,5,66,7,8,9,10,11,12] : B, }, }, }")).
-Eval vm_compute in ("<<<M2713>>>" ++ check (runes_of_ascii "options repeat [ ] uint32 false match char[] @tag( MetaData string , float32")).
-Eval vm_compute in ("<<<M4386>>>" ++ check (runes_of_ascii "packet A {
-    match k as n {
-        [1, 22] : B,
-        2 : C,
-    },
-}")).
-Eval vm_compute in ("<<<M2154>>>" ++ check (runes_of_ascii "root root
+Eval vm_compute in ("<<<M2156>>>" ++ check (runes_of_ascii "false
     // `tick` ""quote"" 'q'
     packet As { trueish Packet , }
 ")).
-Eval vm_compute in ("<<<M3402>>>" ++ check (runes_of_ascii "MetaData _x { zchar[
-// c
-4294967296 ] lengthOf `// not a comment` , }")).
-Eval vm_compute in ("<<<M802>>>" ++ check (runes_of_ascii "// `tick` ""quote"" 'q'
-packet zchar{ repeat char[
-    1 ] f32a  ``, }")).
-Eval vm_compute in ("<<<M2206>>>" ++ check (runes_of_ascii "root
-    // `tick` ""quote"" 'q'
-    packet As { trueish P" ++ [127]%N ++ runes_of_ascii "acket , }
-")).
-Eval vm_compute in ("<<<M4011>>>" ++ check (runes_of_ascii "packet A {
+Eval vm_compute in ("<<<M3183>>>" ++ check (runes_of_ascii "packet A {
     match k as n {
         1 : B,
-        // d
+        // c
     },
 }")).
-Eval vm_compute in ("<<<M362>>>" ++ check (runes_of_ascii "//x
-MetaData msg_type
-    {// a // b
-uint32 pack
-`tab	here`, }
+Eval vm_compute in ("<<<M4250>>>" ++ check (runes_of_ascii "packet A  { repeat B 
+{  C { u8
+x
+    ,}
+,	D d
+
+    ,	} ,	}
 ")).
-Eval vm_compute in ("<<<M2174>>>" ++ check (runes_of_ascii "root
-    // `tick` ""quote"" 'q'
-    packet As { as Packet , }
-")).
-Eval vm_compute in ("<<<M634>>>" ++ check (runes_of_ascii "  packet	As {char[ 42
-]	o
-`it's`
-    // @lengthOf(
-    ,  }")).
+Eval vm_compute in ("<<<M1661>>>" ++ check (runes_of_ascii "root packet /// triple
+rootA {	i32
+MetaDataX@calculatedFrom(")).
+Eval vm_compute in ("<<<M1953>>>" ++ check (runes_of_ascii "
+@tagpacket	As { @calculatedFrom(//x
+""{,}""	)lengthOf , } 	 ")).
 Eval vm_compute in ("<<<M1921>>>" ++ check (runes_of_ascii "
 packet	As { @calculatedFrom(//x
 ""{,}""	) )lengthOf , } 	 ")).
-Eval vm_compute in ("<<<M2859>>>" ++ check (runes_of_ascii "packet A {
-  match k as n {
-    [1] : B
-    2 : C
-  },
-}")).
+Eval vm_compute in ("<<<M2706>>>" ++ check (runes_of_ascii "; f64 ; ' ' [ as char[] } : float32 char[] '\x00' char[]")).
 Eval vm_compute in ("<<<M518>>>" ++ check (runes_of_ascii "packet options1
 { @lengthOf(
 x_y_z ) falsey , }
 // c
 ")).
-Eval vm_compute in ("<<<M3048>>>" ++ check (runes_of_ascii "MetaData M {
-    u8 x `tab
-	x`,
-    T t `tab
-	x`,
-}")).
-Eval vm_compute in ("<<<M1329>>>" ++ check (runes_of_ascii "packet As  {
-//x
-// " ++ [128512]%N ++ runes_of_ascii " emoji
-repeat
-char zchar , }")).
-Eval vm_compute in ("<<<M4449>>>" ++ check (runes_of_ascii "packet
-	A {
+Eval vm_compute in ("<<<M3700>>>" ++ check (runes_of_ascii "
+// a // b
+packet
+calculatedFrom	{
+i32
 
-zchar[3]
-    x@lengthOf(  y  )
-	,
-}")).
-Eval vm_compute in ("<<<M1767>>>" ++ check ([233]%N ++ runes_of_ascii "options { }options {  } // `tick` ""quote"" 'q'")).
-Eval vm_compute in ("<<<M2825>>>" ++ check (runes_of_ascii "@lengthOf( @calculatedFrom( MetaDataX i8 i8 ;")).
-Eval vm_compute in ("<<<M2754>>>" ++ check (runes_of_ascii "options1 : int64 match @lengthOf( 007 65535")).
-Eval vm_compute in ("<<<M2117>>>" ++ check (runes_of_ascii "MetaData x
-{// " ++ [128512]%N ++ runes_of_ascii " emoji
-uint32 stringy , }")).
-Eval vm_compute in ("<<<M2130>>>" ++ check (runes_of_ascii "MetaData x
-{// " ++ [128512]%N ++ runes_of_ascii " emoji
-i16 stringy , } }")).
-Eval vm_compute in ("<<<M3772>>>" ++ check (runes_of_ascii "
-packet	A 
-{	u8
-
-x
-
-`d" ++ [133]%N ++ runes_of_ascii "`	, // c" ++ [133]%N ++ runes_of_ascii "
-    }
+_x ,  }
 ")).
+Eval vm_compute in ("<<<M1896>>>" ++ check (runes_of_ascii "
+	As { @calculatedFrom(//x
+""{,}""	)lengthOf , } 	 ")).
+Eval vm_compute in ("<<<M738>>>" ++ check (runes_of_ascii "options {
+float = ' '
+;
+    _x	= 4294967296 ; }")).
+Eval vm_compute in ("<<<M430>>>" ++ check (runes_of_ascii "// a // b
+packet calculatedFrom{ i32
+    _x, }")).
+Eval vm_compute in ("<<<M2812>>>" ++ check (runes_of_ascii "@tag( `tab	here` repeat int16 zchar[ uint64 )")).
+Eval vm_compute in ("<<<M1603>>>" ++ check (runes_of_ascii "root packet Foo // " ++ [128512]%N ++ runes_of_ascii " emoji
+{ } options {
+  ")).
+Eval vm_compute in ("<<<M551>>>" ++ check (runes_of_ascii "options {i64_
+    = 10}packet options1 {}")).
+Eval vm_compute in ("<<<M2125>>>" ++ check (runes_of_ascii "MetaData x
+{// " ++ [128512]%N ++ runes_of_ascii " emoji
+i16 stringy , , }")).
+Eval vm_compute in ("<<<M3461>>>" ++ check (runes_of_ascii "
+
+  root 
+packet	P{
+	string	s,
+
+    } ")).
 Eval vm_compute in ("<<<M1924>>>" ++ check (runes_of_ascii "
 packet	As { @calculatedFrom(//x
 ""{,}""")).
-Eval vm_compute in ("<<<M2605>>>" ++ check (runes_of_ascii "packet A { match k as n { [] : B }, }")).
-Eval vm_compute in ("<<<M499>>>" ++ check (runes_of_ascii "packet Packet {crc u `two words` ,}")).
-Eval vm_compute in ("<<<M3013>>>" ++ check (runes_of_ascii "root packet A {
-    u8 x `a
-b`,
-}")).
-Eval vm_compute in ("<<<M2838>>>" ++ check (runes_of_ascii "mHV)h@t@{RF2uS0T]{?I<`nQp>O|RT0-")).
-Eval vm_compute in ("<<<M1336>>>" ++ check (runes_of_ascii "MetaData Packet{  }
-// a // b
+Eval vm_compute in ("<<<M2129>>>" ++ check (runes_of_ascii "MetaData x
+{// " ++ [128512]%N ++ runes_of_ascii " emoji
+i16 stringy , ")).
+Eval vm_compute in ("<<<M542>>>" ++ check (runes_of_ascii "packet chars
+    { repeat pack , }
 ")).
-Eval vm_compute in ("<<<M3924>>>" ++ check (runes_of_ascii "  packet
+Eval vm_compute in ("<<<M4245>>>" ++ check (runes_of_ascii "packet A {
+u8 x`d" ++ [8233]%N ++ runes_of_ascii "`
+	, 	 // c" ++ [8233]%N ++ runes_of_ascii "
 
-A
-{ } 
-    // c" ++ [12]%N ++ runes_of_ascii "
+}")).
+Eval vm_compute in ("<<<M3459>>>" ++ check (runes_of_ascii "root packet P {
+    string s,
+}
+")).
+Eval vm_compute in ("<<<M2135>>>" ++ check (runes_of_ascii "MetaData x
+{// " ++ [128512]%N ++ runes_of_ascii " emoji
+i16 str")).
+Eval vm_compute in ("<<<M1919>>>" ++ check (runes_of_ascii "
+packet	As { @calculatedFrom(")).
+Eval vm_compute in ("<<<M3731>>>" ++ check (runes_of_ascii "  options{ 
+}  /// triple
  
 ")).
-Eval vm_compute in ("<<<M2777>>>" ++ check (runes_of_ascii "= u128 u8 u16 char u16 false")).
-Eval vm_compute in ("<<<M4147>>>" ++ check (runes_of_ascii "packet  A
-
-    {
-
-} // c" ++ [8203]%N)).
-Eval vm_compute in ("<<<M1308>>>" ++ check (runes_of_ascii "
-root
-packet len
-{
-    }
+Eval vm_compute in ("<<<M704>>>" ++ check (runes_of_ascii "
+options { int	= i16 ; }
 ")).
-Eval vm_compute in ("<<<M1003>>>" ++ check (runes_of_ascii "packet repeatCount {} //")).
-Eval vm_compute in ("<<<M3385>>>" ++ check (runes_of_ascii "packet lengthOf
-// c
-{ }")).
-Eval vm_compute in ("<<<M965>>>" ++ check (runes_of_ascii "options { } /// triple")).
-Eval vm_compute in ("<<<M2075>>>" ++ check (runes_of_ascii "MetaData A { u64 pack")).
-Eval vm_compute in ("<<<M2841>>>" ++ check (runes_of_ascii "29" ++ [5; 6]%N ++ runes_of_ascii "<" ++ [65533]%N ++ runes_of_ascii "F>" ++ [6]%N ++ runes_of_ascii "r " ++ [65533]%N ++ runes_of_ascii "C" ++ [65533; 65533; 0; 65533]%N ++ runes_of_ascii "2N" ++ [65533]%N)).
-Eval vm_compute in ("<<<M564>>>" ++ check (runes_of_ascii "MetaData
-Logon
-{ }")).
-Eval vm_compute in ("<<<M3091>>>" ++ check (runes_of_ascii "packet A {
+Eval vm_compute in ("<<<M2088>>>" ++ check (runes_of_ascii "MetaData A { `u64 pack, }")).
+Eval vm_compute in ("<<<M1214>>>" ++ check (runes_of_ascii "options {leftPad =' ' }
+")).
+Eval vm_compute in ("<<<M3593>>>" ++ check (runes_of_ascii "packet
+	A
+	{  } 
+
+// c" ++ [6158]%N ++ runes_of_ascii "
+")).
+Eval vm_compute in ("<<<M415>>>" ++ check (runes_of_ascii "// packet A { u8 x, }
+")).
+Eval vm_compute in ("<<<M2573>>>" ++ check (runes_of_ascii "packet A { x `d` y, }")).
+Eval vm_compute in ("<<<M4199>>>" ++ check (runes_of_ascii "packet A {
+}// a// b")).
+Eval vm_compute in ("<<<M4206>>>" ++ check (runes_of_ascii "packet
+	Packet{ 
+} ")).
+Eval vm_compute in ("<<<M3081>>>" ++ check (runes_of_ascii "packet A {
 }
-// c" ++ [8202]%N)).
-Eval vm_compute in ("<<<M2566>>>" ++ check (runes_of_ascii "packet A { u8 x }")).
-Eval vm_compute in ("<<<M128>>>" ++ check (runes_of_ascii "packet i8i8
-{}
+// c" ++ [5760]%N)).
+Eval vm_compute in ("<<<M2027>>>" ++ check (runes_of_ascii "root
+packet crc
 ")).
-Eval vm_compute in ("<<<M2689>>>" ++ check (runes_of_ascii "= u32 """" uint64")).
-Eval vm_compute in ("<<<M4333>>>" ++ check (runes_of_ascii "
-// " ++ [128512]%N ++ runes_of_ascii " emoji
-")).
-Eval vm_compute in ("<<<M2484>>>" ++ check (runes_of_ascii "@lengthOf(")).
-Eval vm_compute in ("<<<M3883>>>" ++ check (runes_of_ascii "
-// c" ++ [5760]%N ++ runes_of_ascii "
-")).
-Eval vm_compute in ("<<<M2460>>>" ++ check (runes_of_ascii "repeat")).
-Eval vm_compute in ("<<<M2509>>>" ++ check (runes_of_ascii """a
-b""")).
-Eval vm_compute in ("<<<M2443>>>" ++ check (runes_of_ascii "i8i8")).
-Eval vm_compute in ("<<<M2496>>>" ++ check (runes_of_ascii "/ /")).
-Eval vm_compute in ("<<<M2493>>>" ++ check (runes_of_ascii "@@")).
-Eval vm_compute in ("<<<M2675>>>" ++ check (runes_of_ascii "1")).
+Eval vm_compute in ("<<<M3139>>>" ++ check (runes_of_ascii "packet A {
+}// c" ++ [6158]%N)).
+Eval vm_compute in ("<<<M2568>>>" ++ check (runes_of_ascii "packet A { x, }")).
+Eval vm_compute in ("<<<M742>>>" ++ check (runes_of_ascii "packet Z9_{}")).
+Eval vm_compute in ("<<<M2538>>>" ++ check (runes_of_ascii ":,;=()[]{}")).
+Eval vm_compute in ("<<<M2427>>>" ++ check (runes_of_ascii "char[]x")).
+Eval vm_compute in ("<<<M2735>>>" ++ check (runes_of_ascii "B3{" ++ [65533; 65533; 65533]%N)).
+Eval vm_compute in ("<<<M2811>>>" ++ check (runes_of_ascii "}#.UJ")).
+Eval vm_compute in ("<<<M2500>>>" ++ check (runes_of_ascii "//x")).
+Eval vm_compute in ("<<<M2525>>>" ++ check (runes_of_ascii "007")).
+Eval vm_compute in ("<<<M2533>>>" ++ check (runes_of_ascii "__")).
